@@ -32,7 +32,7 @@ theorem Ok.mono {α} {r : Res α} {Q Q' : α → St → Prop} (h : Ok r Q) (hq :
   | ok a s => exact hq a s h
   | crash msg s => exact h.elim
 
-variable {inp : Bytes} {d : Delims}
+variable {inp : Bytes} {d : Delims} {lo : Int}
 
 theorem restAt_eq (s : St) (a : Int) (h0 : 0 ≤ a) (h1 : a ≤ s.input.length) :
     restAt a s = .ok (s.input.drop a.toNat) s := by
@@ -58,24 +58,26 @@ theorem prefix_fits (inp : Bytes) (p : Int) (pre : Bytes) (h0 : 0 ≤ p) (h1 : p
   have e := drop_length_int inp p h0 h1
   omega
 
-theorem B.setPos {s : St} (h : B inp d s) (p : Int) (h1 : s.start ≤ p) (h2 : p ≤ inp.length) :
-    B inp d { s with pos := p } :=
-  ⟨h.input, h.delims, h.wfd, h.start0, h1, h2, h.events, h.fields⟩
+theorem B.setPos {s : St} (h : B inp d lo s) (p : Int) (h1 : s.start ≤ p) (h2 : p ≤ inp.length) :
+    B inp d lo { s with pos := p } :=
+  ⟨h.input, h.delims, h.wfd, h.start0, h1, h2, h.events, h.fields, h.low⟩
 
-theorem B.setWidth {s : St} (h : B inp d s) (w : Int) : B inp d { s with width := w } :=
-  ⟨h.input, h.delims, h.wfd, h.start0, h.startPos, h.posLen, h.events, h.fields⟩
+theorem B.pos0 {s : St} (h : B inp d lo s) : 0 ≤ s.pos := Int.le_trans h.start0 h.startPos
+
+theorem B.setWidth {s : St} (h : B inp d lo s) (w : Int) : B inp d lo { s with width := w } :=
+  ⟨h.input, h.delims, h.wfd, h.start0, h.startPos, h.posLen, h.events, h.fields, h.low⟩
 
 /-- the value `emit` sends: `l.input[l.start:l.pos]` -/
 def pending (s : St) : Bytes := (s.input.drop s.start.toNat).take (s.pos - s.start).toNat
 
-theorem emit_ok' (t : Tok) (s : St) (h : B inp d s) (hf : t = Tok.field → ∃ c cs, pending s = 46 :: c :: cs) :
-    Ok (emit t s) (fun _ s' => B inp d s' ∧ s'.start = s.pos ∧ s'.pos = s.pos ∧ s'.width = s.width ∧
+theorem emit_ok' (t : Tok) (s : St) (h : B inp d lo s) (hf : t = Tok.field → ∃ c cs, pending s = 46 :: c :: cs) :
+    Ok (emit t s) (fun _ s' => B inp d lo s' ∧ s'.start = s.pos ∧ s'.pos = s.pos ∧ s'.width = s.width ∧
       s'.parenDepth = s.parenDepth) := by
   unfold emit slice
   have hc : 0 ≤ s.start ∧ s.start ≤ s.pos ∧ s.pos ≤ (s.input.length : Int) := by
     rw [h.input]; exact ⟨h.start0, h.startPos, h.posLen⟩
   simp only [hc, and_self, if_true]
-  refine ⟨⟨h.input, h.delims, h.wfd, ?_, Int.le_refl _, h.posLen, ?_, ?_⟩, rfl, rfl, rfl, rfl⟩
+  refine ⟨⟨h.input, h.delims, h.wfd, ?_, Int.le_refl _, h.posLen, ?_, ?_, Int.le_trans h.low h.startPos⟩, rfl, rfl, rfl, rfl⟩
   · exact Int.le_trans h.start0 h.startPos
   · intro e he
     simp at he
@@ -89,15 +91,15 @@ theorem emit_ok' (t : Tok) (s : St) (h : B inp d s) (hf : t = Tok.field → ∃ 
     · exact h.fields e he
 
 /-- `emit` of anything but a field item -/
-theorem emit_ok (t : Tok) (s : St) (h : B inp d s) (hne : t ≠ Tok.field := by decide) :
-    Ok (emit t s) (fun _ s' => B inp d s' ∧ s'.start = s.pos ∧ s'.pos = s.pos ∧ s'.width = s.width ∧
+theorem emit_ok (t : Tok) (s : St) (h : B inp d lo s) (hne : t ≠ Tok.field := by decide) :
+    Ok (emit t s) (fun _ s' => B inp d lo s' ∧ s'.start = s.pos ∧ s'.pos = s.pos ∧ s'.width = s.width ∧
       s'.parenDepth = s.parenDepth) :=
   emit_ok' t s h (fun e => (hne e).elim)
 
-theorem ignore_ok (k : IgnKind) (s : St) (h : B inp d s) :
-    Ok (ignore k s) (fun _ s' => B inp d s' ∧ s'.start = s.pos ∧ s'.pos = s.pos ∧ s'.width = s.width ∧
+theorem ignore_ok (k : IgnKind) (s : St) (h : B inp d lo s) :
+    Ok (ignore k s) (fun _ s' => B inp d lo s' ∧ s'.start = s.pos ∧ s'.pos = s.pos ∧ s'.width = s.width ∧
       s'.parenDepth = s.parenDepth) := by
-  refine ⟨⟨h.input, h.delims, h.wfd, Int.le_trans h.start0 h.startPos, Int.le_refl _, h.posLen, ?_, ?_⟩, rfl, rfl, rfl, rfl⟩
+  refine ⟨⟨h.input, h.delims, h.wfd, Int.le_trans h.start0 h.startPos, Int.le_refl _, h.posLen, ?_, ?_, Int.le_trans h.low h.startPos⟩, rfl, rfl, rfl, rfl⟩
   · intro e he
     simp at he
     rcases he with rfl | he
@@ -109,9 +111,9 @@ theorem ignore_ok (k : IgnKind) (s : St) (h : B inp d s) :
     · trivial
     · exact h.fields e he
 
-theorem errorf_ok (msg : String) (s : St) (h : B inp d s) :
-    Ok (errorf msg s) (fun r s' => r = none ∧ B inp d s' ∧ s'.start = s.start ∧ s'.pos = s.pos) := by
-  refine ⟨rfl, ⟨h.input, h.delims, h.wfd, h.start0, h.startPos, h.posLen, ?_, ?_⟩, rfl, rfl⟩
+theorem errorf_ok (msg : String) (s : St) (h : B inp d lo s) :
+    Ok (errorf msg s) (fun r s' => r = none ∧ B inp d lo s' ∧ s'.start = s.start ∧ s'.pos = s.pos) := by
+  refine ⟨rfl, ⟨h.input, h.delims, h.wfd, h.start0, h.startPos, h.posLen, ?_, ?_, h.low⟩, rfl, rfl⟩
   · intro e he
     simp at he
     rcases he with rfl | he
@@ -124,25 +126,25 @@ theorem errorf_ok (msg : String) (s : St) (h : B inp d s) :
     · exact h.fields e he
 
 /-- `next` under the invariant: the cursor moves by the width of the rune read, which can be given back -/
-theorem next_ok (s : St) (h : B inp d s) :
+theorem next_ok (s : St) (h : B inp d lo s) :
     Ok (next s) (fun r s' => r = (runeAt s).1 ∧ s' = { s with width := (runeAt s).2, pos := s.pos + (runeAt s).2 } ∧
-      N inp d s') := by
+      N inp d lo s') := by
   have h0 : 0 ≤ s.pos := Int.le_trans h.start0 h.startPos
   have h1 : s.pos ≤ s.input.length := by rw [h.input]; exact h.posLen
   rw [next_eq s h0 h1]
   have hb := runeAt_bounds s h0 h1
   rw [h.input] at hb
-  refine ⟨rfl, rfl, ⟨⟨h.input, h.delims, h.wfd, h.start0, ?_, hb.2.1, h.events, h.fields⟩, hb.1, ?_⟩⟩
+  refine ⟨rfl, rfl, ⟨⟨h.input, h.delims, h.wfd, h.start0, ?_, hb.2.1, h.events, h.fields, h.low⟩, hb.1, ?_⟩⟩
   · show s.start ≤ s.pos + (runeAt s).2
     have := h.startPos; omega
   · show s.start ≤ s.pos + (runeAt s).2 - (runeAt s).2
     have := h.startPos; omega
 
-theorem N.backup {s : St} (h : N inp d s) : B inp d { s with pos := s.pos - s.width } :=
-  ⟨h.input, h.delims, h.wfd, h.start0, h.back, by show s.pos - s.width ≤ _; have := h.posLen; have := h.width0; omega, h.events, h.fields⟩
+theorem N.backup {s : St} (h : N inp d lo s) : B inp d lo { s with pos := s.pos - s.width } :=
+  ⟨h.input, h.delims, h.wfd, h.start0, h.back, by show s.pos - s.width ≤ _; have := h.posLen; have := h.width0; omega, h.events, h.fields, h.low⟩
 
-theorem peek_ok (s : St) (h : B inp d s) :
-    Ok (peek s) (fun r s' => r = (runeAt s).1 ∧ s' = { s with width := (runeAt s).2 } ∧ B inp d s') := by
+theorem peek_ok (s : St) (h : B inp d lo s) :
+    Ok (peek s) (fun r s' => r = (runeAt s).1 ∧ s' = { s with width := (runeAt s).2 } ∧ B inp d lo s') := by
   have h0 : 0 ≤ s.pos := Int.le_trans h.start0 h.startPos
   have h1 : s.pos ≤ s.input.length := by rw [h.input]; exact h.posLen
   rw [peek_eq s h0 h1]
@@ -151,7 +153,7 @@ theorem peek_ok (s : St) (h : B inp d s) :
 /-- bytes still ahead of the cursor -/
 def rem (s : St) : Nat := (s.input.length - s.pos).toNat
 
-theorem rem_next (s : St) (h : B inp d s) (hsome : (runeAt s).1.isSome) :
+theorem rem_next (s : St) (h : B inp d lo s) (hsome : (runeAt s).1.isSome) :
     rem { s with width := (runeAt s).2, pos := s.pos + (runeAt s).2 } + 1 ≤ rem s := by
   have h0 : 0 ≤ s.pos := Int.le_trans h.start0 h.startPos
   have h1 : s.pos ≤ s.input.length := by rw [h.input]; exact h.posLen
@@ -175,25 +177,45 @@ theorem kw_not_field : ¬ (Tok.field.code > Tok.keyword.code) := by decide
 
 /-! ### small helpers of the state functions -/
 
-theorem backup_ok (s : St) (h : N inp d s) : Ok (backup s) (fun _ s' => B inp d s' ∧ s' = { s with pos := s.pos - s.width }) :=
+theorem backup_ok (s : St) (h : N inp d lo s) : Ok (backup s) (fun _ s' => B inp d lo s' ∧ s' = { s with pos := s.pos - s.width }) :=
   ⟨h.backup, rfl⟩
 
-theorem accept_ok (valid : List Nat) (s : St) (h : B inp d s) : Ok (accept valid s) (fun _ s' => B inp d s') := by
+theorem accept_ok (valid : List Nat) (s : St) (h : B inp d lo s) :
+    Ok (accept valid s) (fun b s' => B inp d lo s' ∧ b = runeIn valid (runeAt s).1 ∧ s.pos ≤ s'.pos ∧
+      (b = true → s.pos + 1 ≤ s'.pos) ∧ (b = false → s'.pos = s.pos)) := by
   unfold accept
   refine Ok.bind (next_ok s h) ?_
   intro r s1 h1
-  split
-  · exact h1.2.2.toB
-  · exact Ok.bind (backup_ok s1 h1.2.2) (fun _ s2 h2 => h2.1)
+  obtain ⟨hr1, hs1, hn⟩ := h1
+  have hbnd := runeAt_bounds s h.pos0 (by rw [h.input]; exact h.posLen)
+  have hp1 : s1.pos = s.pos + (runeAt s).2 := by rw [hs1]
+  have hw1 : s1.width = (runeAt s).2 := by rw [hs1]
+  by_cases hin : runeIn valid r = true
+  · rw [if_pos hin]
+    have hsome : (runeAt s).1.isSome := by
+      rw [← hr1]; cases r with
+      | none => simp [runeIn] at hin
+      | some c => rfl
+    have := hbnd.2.2.1 hsome
+    exact ⟨hn.toB, by rw [← hr1, hin], by omega, fun _ => by omega, fun hc => by simp at hc⟩
+  · rw [if_neg hin]
+    refine Ok.bind (backup_ok s1 hn) ?_
+    intro _ s2 h2
+    have hp2 : s2.pos = s.pos := by rw [h2.2]; show s1.pos - s1.width = _; omega
+    exact ⟨h2.1, by rw [← hr1]; simpa using hin, by omega, fun hc => by simp at hc, fun _ => hp2⟩
 
-theorem acceptRunLoop_ok (valid : List Nat) : ∀ (fuel : Nat) (s : St), B inp d s → rem s < fuel →
-    Ok (acceptRunLoop valid fuel s) (fun _ s' => B inp d s')
+theorem acceptRunLoop_ok (valid : List Nat) : ∀ (fuel : Nat) (s : St), B inp d lo s → rem s < fuel →
+    Ok (acceptRunLoop valid fuel s) (fun _ s' => B inp d lo s' ∧ s.pos ≤ s'.pos ∧
+      (runeIn valid (runeAt s).1 = true → s.pos + 1 ≤ s'.pos) ∧ (runeIn valid (runeAt s).1 = false → s'.pos = s.pos))
   | 0, _, _, hr => by omega
   | fuel + 1, s, h, hr => by
     unfold acceptRunLoop
     refine Ok.bind (next_ok s h) ?_
     intro r s1 h1
     obtain ⟨hr1, hs1, hn⟩ := h1
+    have hbnd := runeAt_bounds s h.pos0 (by rw [h.input]; exact h.posLen)
+    have hp1 : s1.pos = s.pos + (runeAt s).2 := by rw [hs1]
+    have hw1 : s1.width = (runeAt s).2 := by rw [hs1]
     split
     · rename_i hin
       have hsome : (runeAt s).1.isSome := by
@@ -202,10 +224,23 @@ theorem acceptRunLoop_ok (valid : List Nat) : ∀ (fuel : Nat) (s : St), B inp d
         | some c => rfl
       have := rem_next s h hsome
       rw [← hs1] at this
-      exact acceptRunLoop_ok valid fuel s1 hn.toB (by omega)
-    · exact (backup_ok s1 hn).mono (fun _ _ h => h.1)
+      have hw := hbnd.2.2.1 hsome
+      refine (acceptRunLoop_ok valid fuel s1 hn.toB (by omega)).mono ?_
+      intro _ s' h'
+      refine ⟨h'.1, by have := h'.2.1; omega, fun _ => by have := h'.2.1; omega, fun hc => ?_⟩
+      rw [← hr1, hin] at hc
+      simp at hc
+    · rename_i hin
+      refine (backup_ok s1 hn).mono ?_
+      intro _ s2 h2
+      have hp2 : s2.pos = s.pos := by rw [h2.2]; show s1.pos - s1.width = _; omega
+      refine ⟨h2.1, by omega, fun hc => ?_, fun _ => hp2⟩
+      rw [← hr1] at hc
+      exact absurd hc hin
 
-theorem acceptRun_ok (valid : List Nat) (s : St) (h : B inp d s) : Ok (acceptRun valid s) (fun _ s' => B inp d s') := by
+theorem acceptRun_ok (valid : List Nat) (s : St) (h : B inp d lo s) :
+    Ok (acceptRun valid s) (fun _ s' => B inp d lo s' ∧ s.pos ≤ s'.pos ∧
+      (runeIn valid (runeAt s).1 = true → s.pos + 1 ≤ s'.pos) ∧ (runeIn valid (runeAt s).1 = false → s'.pos = s.pos)) := by
   unfold acceptRun
   rw [lbind_apply, get_apply]
   refine acceptRunLoop_ok valid _ s h ?_
@@ -213,9 +248,10 @@ theorem acceptRun_ok (valid : List Nat) (s : St) (h : B inp d s) : Ok (acceptRun
   have := h.startPos; have := h.start0
   omega
 
-theorem atRightDelim_ok (s : St) (h : B inp d s) :
+theorem atRightDelim_ok (s : St) (h : B inp d lo s) :
     Ok (atRightDelim s) (fun r s' => s' = s ∧
-      (r.1 = true → hasPrefix (s.input.drop s.pos.toNat) s.d.trimRight = true ∨ hasPrefix (s.input.drop s.pos.toNat) s.d.right = true)) := by
+      (r.1 = true → hasPrefix (s.input.drop s.pos.toNat) s.d.trimRight = true ∨ hasPrefix (s.input.drop s.pos.toNat) s.d.right = true) ∧
+      (r.1 = false → hasPrefix (s.input.drop s.pos.toNat) s.d.trimRight = false)) := by
   have h0 : 0 ≤ s.pos := Int.le_trans h.start0 h.startPos
   have h1 : s.pos ≤ s.input.length := by rw [h.input]; exact h.posLen
   unfold atRightDelim
@@ -224,10 +260,11 @@ theorem atRightDelim_ok (s : St) (h : B inp d s) :
   rw [lbind_apply, restAt_eq s s.pos h0 h1]
   simp only
   split
-  · rename_i hp; exact ⟨rfl, fun _ => Or.inl hp⟩
-  · split
-    · rename_i hp; exact ⟨rfl, fun _ => Or.inr hp⟩
-    · exact ⟨rfl, fun hc => by simp at hc⟩
+  · rename_i hp; exact ⟨rfl, fun _ => Or.inl hp, fun hc => by simp at hc⟩
+  · rename_i hnt
+    split
+    · rename_i hp; exact ⟨rfl, fun _ => Or.inr hp, fun hc => by simp at hc⟩
+    · exact ⟨rfl, fun hc => by simp at hc, fun _ => by simpa using hnt⟩
 
 /-- what `atTerminator` answers: a function of the rune at the cursor and the right delimiter -/
 def termVal (s : St) : Bool :=
@@ -236,8 +273,8 @@ def termVal (s : St) : Bool :=
     | none => Facts.terminatorEOF
     | some c => if Facts.terminatorChars.contains c then true else (decodeRune s.d.right).1 == c
 
-theorem atTerminator_ok (s : St) (h : B inp d s) :
-    Ok (atTerminator s) (fun r s' => s' = { s with width := (runeAt s).2 } ∧ B inp d s' ∧ r = termVal s) := by
+theorem atTerminator_ok (s : St) (h : B inp d lo s) :
+    Ok (atTerminator s) (fun r s' => s' = { s with width := (runeAt s).2 } ∧ B inp d lo s' ∧ r = termVal s) := by
   unfold atTerminator
   refine Ok.bind (peek_ok s h) ?_
   intro r s1 h1
@@ -269,26 +306,63 @@ def Entry (st : StateId) (s : St) : Prop :=
   | .comment => hasPrefix (rest s) s.d.lcomment = true
   | .rightDelim => hasPrefix (rest s) s.d.trimRight = true ∨ hasPrefix (rest s) s.d.right = true
   | .insideAction => s.start = s.pos
-  | .space => s.start < s.pos
+  | .space => s.start + 1 = s.pos ∧ hasPrefix (s.input.drop s.start.toNat) s.d.trimRight = false
   | .identifier =>
     (∃ b tl, s.input.drop s.start.toNat = b :: tl ∧ b ≠ 46) ∧
     (s.start < s.pos ∨ (∃ c, (runeAt s).1 = some c ∧ isAlphaNumeric (some c) = true))
   | .field => s.start + 1 = s.pos ∧ ∃ tl, s.input.drop s.start.toNat = 46 :: tl
-  | _ => True
+  | .char => s.start < s.pos
+  | .quote => s.start < s.pos
+  | .rawQuote => s.start < s.pos
+  | .number => ∃ c, (runeAt s).1 = some c ∧ (c = 43 ∨ c = 45 ∨ c = 46 ∨ (48 ≤ c ∧ c ≤ 57))
+  | .text => True
 
 /-- what a state function leaves behind: the invariant, and the entry fact of the state it selects -/
-def Goes (inp : Bytes) (d : Delims) (r : Option StateId) (s' : St) : Prop :=
-  B inp d s' ∧ (∀ st, r = some st → Entry st s')
+def Goes (inp : Bytes) (d : Delims) (lo : Int) (r : Option StateId) (s' : St) : Prop :=
+  B inp d lo s' ∧ (∀ st, r = some st → Entry st s')
+
+/-- the floor under `start` can be lowered, and raised up to `start` itself -/
+theorem B.relo {s : St} (h : B inp d lo s) (lo' : Int) (hl : lo' ≤ s.start) : B inp d lo' s :=
+  ⟨h.input, h.delims, h.wfd, h.start0, h.startPos, h.posLen, h.events, h.fields, hl⟩
+
+theorem Goes.relo {r : Option StateId} {s' : St} (h : Goes inp d lo r s') (lo' : Int) (hl : lo' ≤ lo) : Goes inp d lo' r s' :=
+  ⟨h.1.relo lo' (Int.le_trans hl h.1.low), h.2⟩
+
+/-- how far a state function moves `start` at least, by the state it was and the state it selects:
+    0 for the hand-overs that consume nothing (`text` finding a delimiter at once, `insideAction`
+    dispatching on the first rune, `space` seeing the trim marker, any error), 1 otherwise -/
+def delta : StateId → Option StateId → Int
+  | _, none => 0
+  | .text, some .leftDelim => 0
+  | .text, some .comment => 0
+  | .insideAction, some .insideAction => 1
+  | .insideAction, some .text => 1
+  | .insideAction, some .leftDelim => 1
+  | .insideAction, some .comment => 1
+  | .insideAction, some _ => 0
+  | .space, some .rightDelim => 0
+  | _, some _ => 1
+
+/-- what a state function run from `s` in state `st` leaves behind -/
+def Steps (inp : Bytes) (d : Delims) (st : StateId) (s : St) (r : Option StateId) (s' : St) : Prop :=
+  Goes inp d (s.start + delta st r) r s'
+
+theorem delta_le_one (st : StateId) (r : Option StateId) : delta st r ≤ 1 := by
+  cases st <;> cases r <;> (try rename_i x; cases x) <;> simp [delta]
+
+theorem delta_none (st : StateId) : delta st none = 0 := by cases st <;> rfl
+
+theorem Steps.of {st : StateId} {s : St} {r : Option StateId} {s' : St} {lo' : Int}
+    (h : Goes inp d lo' r s') (hl : s.start + delta st r ≤ lo') : Steps inp d st s r s' := h.relo _ hl
 
 theorem ok_modify (f : St → St) (s : St) : Ok (modify f s) (fun _ s' => s' = f s) := rfl
 theorem ok_get (s : St) : Ok (get s) (fun a s' => s = a ∧ s = s') := ⟨rfl, rfl⟩
 
-theorem ok_restAt (s : St) (h : B inp d s) (a : Int) (h0 : 0 ≤ a) (h1 : a ≤ inp.length) :
+theorem ok_restAt (s : St) (h : B inp d lo s) (a : Int) (h0 : 0 ≤ a) (h1 : a ≤ inp.length) :
     Ok (restAt a s) (fun r s' => r = s.input.drop a.toNat ∧ s = s') := by
   rw [restAt_eq s a h0 (by rw [h.input]; exact h1)]
   exact ⟨rfl, rfl⟩
 
-theorem B.pos0 {s : St} (h : B inp d s) : 0 ≤ s.pos := Int.le_trans h.start0 h.startPos
 
 theorem indexOf_fits : ∀ (a sep : Bytes) (i : Nat), indexOf a sep = some i → i + sep.length ≤ a.length
   | [], sep, i, h => by
@@ -310,29 +384,38 @@ theorem indexOf_fits : ∀ (a sep : Bytes) (i : Nat), indexOf a sep = some i →
         have := indexOf_fits xs sep k hi
         simp; omega
 
-theorem lexLeftDelim_ok (s : St) (h : B inp d s) (he : Entry .leftDelim s) :
-    Ok (lexLeftDelim s) (Goes inp d) := by
+theorem lexLeftDelim_ok (s : St) (h : B inp d lo s) (he : Entry .leftDelim s) :
+    Ok (lexLeftDelim s) (Steps inp d .leftDelim s) := by
   have hfit := prefix_fits inp s.pos s.d.left h.pos0 h.posLen (by rw [← h.input]; exact he)
+  have hlen : 1 ≤ s.d.left.length := by
+    have := h.wfd.left; rw [← h.delims] at this
+    cases hl : s.d.left with
+    | nil => exact absurd hl this
+    | cons a b => simp
   unfold lexLeftDelim
   refine Ok.bind (ok_modify _ s) ?_
   intro _ s1 e1
-  have hb1 : B inp d s1 := by
+  have hb1 : B inp d lo s1 := by
     rw [e1]; exact h.setPos _ (by have := h.startPos; omega) hfit
   refine Ok.bind (emit_ok Tok.leftDelim s1 hb1) ?_
   intro _ s2 h2
+  have h2 : B inp d (s.start + 1) s2 ∧ s2.start = s1.pos ∧ s2.pos = s1.pos ∧ s2.width = s1.width ∧
+      s2.parenDepth = s1.parenDepth :=
+    ⟨h2.1.relo _ (by rw [h2.2.1, e1]; show s.start + 1 ≤ s.pos + _; have := h.startPos; omega), h2.2⟩
   refine Ok.bind (ok_get s2) ?_
   intro g2 s3 e3
   obtain ⟨rfl, rfl⟩ := e3
   refine Ok.bind (ok_restAt s2 h2.1 s2.pos h2.1.pos0 h2.1.posLen) ?_
   intro r s4 e4
   obtain ⟨rfl, rfl⟩ := e4
-  have tail : ∀ s6, B inp d s6 → s6.start = s6.pos → Ok ((do
+  have tail : ∀ s6, B inp d (s.start + 1) s6 → s6.start = s6.pos → Ok ((do
       modify fun s => { s with parenDepth := 0 }
-      pure (some StateId.insideAction) : M (Option StateId)) s6) (Goes inp d) := by
+      pure (some StateId.insideAction) : M (Option StateId)) s6) (Steps inp d .leftDelim s) := by
     intro s6 hb6 he6
     refine Ok.bind (ok_modify _ s6) ?_
     intro _ s7 e7
-    refine ⟨by rw [e7]; exact ⟨hb6.input, hb6.delims, hb6.wfd, hb6.start0, hb6.startPos, hb6.posLen, hb6.events, hb6.fields⟩, ?_⟩
+    refine Steps.of (lo' := s.start + 1) ?_ (by simp [delta])
+    refine ⟨by rw [e7]; exact ⟨hb6.input, hb6.delims, hb6.wfd, hb6.start0, hb6.startPos, hb6.posLen, hb6.events, hb6.fields, hb6.low⟩, ?_⟩
     intro st hst
     cases hst
     rw [e7]
@@ -342,7 +425,7 @@ theorem lexLeftDelim_ok (s : St) (h : B inp d s) (he : Entry .leftDelim s) :
     have hf2 := prefix_fits inp s2.pos leftTrimMarker h2.1.pos0 h2.1.posLen (by rw [← h2.1.input]; exact hp)
     refine Ok.bind (ok_modify _ _) ?_
     intro _ s5 e5
-    have hb5 : B inp d s5 := by
+    have hb5 : B inp d (s.start + 1) s5 := by
       rw [e5]; exact h2.1.setPos _ (by have := h2.1.startPos; simp [leftTrimMarker] at hf2 ⊢; omega) (by simpa [leftTrimMarker] using hf2)
     refine Ok.bind (ignore_ok _ s5 hb5) ?_
     intro _ s6 h6
@@ -350,13 +433,19 @@ theorem lexLeftDelim_ok (s : St) (h : B inp d s) (he : Entry .leftDelim s) :
   · rw [if_neg hp]
     exact tail s2 h2.1 (by rw [h2.2.1, h2.2.2.1])
 
-theorem lexComment_ok (s : St) (h : B inp d s) (he : Entry .comment s) :
-    Ok (lexComment s) (Goes inp d) := by
+theorem lexComment_ok (s : St) (h : B inp d lo s) (he : Entry .comment s) :
+    Ok (lexComment s) (Steps inp d .comment s) := by
   have hfit := prefix_fits inp s.pos s.d.lcomment h.pos0 h.posLen (by rw [← h.input]; exact he)
+  have hlen : 1 ≤ s.d.lcomment.length := by
+    have := h.wfd.lcomment; rw [← h.delims] at this
+    cases hl : s.d.lcomment with
+    | nil => exact absurd hl this
+    | cons a b => simp
+  have h := h.relo s.start (Int.le_refl _)
   unfold lexComment
   refine Ok.bind (ok_modify _ s) ?_
   intro _ s1 e1
-  have hb1 : B inp d s1 := by
+  have hb1 : B inp d s.start s1 := by
     rw [e1]; exact h.setPos _ (by have := h.startPos; omega) hfit
   refine Ok.bind (ok_get s1) ?_
   intro g1 s2 e2
@@ -365,18 +454,24 @@ theorem lexComment_ok (s : St) (h : B inp d s) (he : Entry .comment s) :
   intro r s3 e3
   obtain ⟨rfl, rfl⟩ := e3
   cases hi : indexOf (List.drop s1.pos.toNat s1.input) s1.d.rcomment with
-  | none => exact (errorf_ok _ s1 hb1).mono (fun r s' h => ⟨h.2.1, by intro st hst; rw [h.1] at hst; cases hst⟩)
+  | none => exact (errorf_ok _ s1 hb1).mono (fun r s' h => Steps.of (lo' := s.start) ⟨h.2.1, by intro st hst; rw [h.1] at hst; cases hst⟩ (by rw [h.1, delta_none]; omega))
   | some i =>
     have hf := indexOf_fits _ _ i hi
     have hl := drop_length_int inp s1.pos hb1.pos0 hb1.posLen
     rw [hb1.input] at hf
     refine Ok.bind (ok_modify _ s1) ?_
     intro _ s4 e4
-    have hb4 : B inp d s4 := by
+    have hb4 : B inp d s.start s4 := by
       rw [e4]; exact hb1.setPos _ (by have := hb1.startPos; omega) (by omega)
     refine Ok.bind (ignore_ok _ s4 hb4) ?_
     intro _ s5 h5
-    exact ⟨h5.1, by intro st hst; cases hst; trivial⟩
+    refine Steps.of (lo' := s.start + 1) ⟨h5.1.relo _ ?_, by intro st hst; cases hst; trivial⟩ (by simp [delta])
+    rw [h5.2.1, e4]
+    show s.start + 1 ≤ s1.pos + _ + _
+    rw [e1]
+    show s.start + 1 ≤ s.pos + _ + _ + _
+    have := h.startPos
+    omega
 
 theorem length_takeWhile_le {α} (p : α → Bool) : ∀ l : List α, (l.takeWhile p).length ≤ l.length
   | [] => by simp
@@ -390,19 +485,25 @@ theorem leftTrimLength_le (b : Bytes) : leftTrimLength b ≤ b.length := by
   unfold leftTrimLength
   exact length_takeWhile_le _ _
 
-theorem goes_text {s' : St} (h : B inp d s') : Goes inp d (some StateId.text) s' :=
+theorem goes_text {s' : St} (h : B inp d lo s') : Goes inp d lo (some StateId.text) s' :=
   ⟨h, by intro st hst; cases hst; trivial⟩
 
-theorem goes_inside {s' : St} (h : B inp d s') (he : s'.start = s'.pos) : Goes inp d (some StateId.insideAction) s' :=
+theorem goes_inside {s' : St} (h : B inp d lo s') (he : s'.start = s'.pos) : Goes inp d lo (some StateId.insideAction) s' :=
   ⟨h, by intro st hst; cases hst; exact he⟩
 
 /-- after an `emit` (or `ignore`) nothing is pending -/
-theorem goes_inside_emit {s0 s' : St} (h : B inp d s' ∧ s'.start = s0.pos ∧ s'.pos = s0.pos ∧ s'.width = s0.width ∧
-    s'.parenDepth = s0.parenDepth) : Goes inp d (some StateId.insideAction) s' :=
+theorem goes_inside_emit {s0 s' : St} (h : B inp d lo s' ∧ s'.start = s0.pos ∧ s'.pos = s0.pos ∧ s'.width = s0.width ∧
+    s'.parenDepth = s0.parenDepth) : Goes inp d lo (some StateId.insideAction) s' :=
   goes_inside h.1 (by rw [h.2.1, h.2.2.1])
 
-theorem lexRightDelim_ok (s : St) (h : B inp d s) (he : Entry .rightDelim s) :
-    Ok (lexRightDelim s) (Goes inp d) := by
+theorem lexRightDelim_ok (s : St) (h : B inp d lo s) (he : Entry .rightDelim s) :
+    Ok (lexRightDelim s) (Steps inp d .rightDelim s) := by
+  have hlen : 1 ≤ s.d.right.length := by
+    have := h.wfd.right; rw [← h.delims] at this
+    cases hl : s.d.right with
+    | nil => exact absurd hl this
+    | cons a b => simp
+  have h := h.relo s.start (Int.le_refl _)
   unfold lexRightDelim
   refine Ok.bind (ok_get s) ?_
   intro g s1 e1
@@ -419,17 +520,20 @@ theorem lexRightDelim_ok (s : St) (h : B inp d s) (he : Entry .rightDelim s) :
     simp [rightTrimMarker] at hfit
     refine Ok.bind (ok_modify _ s) ?_
     intro _ s3 e3
-    have hb3 : B inp d s3 := by rw [e3]; exact h.setPos _ (by have := h.startPos; omega) (by omega)
+    have hb3 : B inp d s.start s3 := by rw [e3]; exact h.setPos _ (by have := h.startPos; omega) (by omega)
     refine Ok.bind (ignore_ok _ s3 hb3) ?_
     intro _ s4 h4
     have hp4 : s4.pos = s.pos + 2 := by rw [h4.2.2.1, e3]
     have hd4 : s4.d = s.d := by rw [h4.1.delims, h.delims]
     refine Ok.bind (ok_modify _ s4) ?_
     intro _ s5 e5
-    have hb5 : B inp d s5 := by
+    have hb5 : B inp d s.start s5 := by
       rw [e5]; exact h4.1.setPos _ (by have := h4.1.startPos; omega) (by rw [hp4, hd4]; omega)
     refine Ok.bind (emit_ok _ s5 hb5) ?_
     intro _ s6 h6
+    have h6 : B inp d (s.start + 1) s6 ∧ s6.start = s5.pos ∧ s6.pos = s5.pos ∧ s6.width = s5.width ∧
+        s6.parenDepth = s5.parenDepth :=
+      ⟨h6.1.relo _ (by rw [h6.2.1, e5]; show s.start + 1 ≤ s4.pos + _; rw [hp4]; have := h.startPos; omega), h6.2⟩
     refine Ok.bind (ok_get s6) ?_
     intro g6 s7 e7
     obtain ⟨rfl, rfl⟩ := e7
@@ -441,11 +545,11 @@ theorem lexRightDelim_ok (s : St) (h : B inp d s) (he : Entry .rightDelim s) :
     have hl := drop_length_int inp s6.pos h6.1.pos0 h6.1.posLen
     have hle := leftTrimLength_le (List.drop s6.pos.toNat s6.input)
     rw [h6.1.input] at hle
-    have hb9 : B inp d s9 := by
+    have hb9 : B inp d (s.start + 1) s9 := by
       rw [e9]; exact h6.1.setPos _ (by have := h6.1.startPos; omega) (by rw [h6.1.input]; omega)
     refine Ok.bind (ignore_ok _ s9 hb9) ?_
     intro _ s10 h10
-    exact goes_text h10.1
+    exact Steps.of (lo' := s.start + 1) (goes_text h10.1) (by simp [delta])
   · simp only [ht]
     have hr : hasPrefix (List.drop s.pos.toNat s.input) s.d.right = true := by
       rcases he with he | he
@@ -454,22 +558,36 @@ theorem lexRightDelim_ok (s : St) (h : B inp d s) (he : Entry .rightDelim s) :
     have hfit := prefix_fits inp s.pos s.d.right h.pos0 h.posLen (by rw [← h.input]; exact hr)
     refine Ok.bind (ok_modify _ s) ?_
     intro _ s5 e5
-    have hb5 : B inp d s5 := by rw [e5]; exact h.setPos _ (by have := h.startPos; omega) hfit
+    have hb5 : B inp d s.start s5 := by rw [e5]; exact h.setPos _ (by have := h.startPos; omega) hfit
     refine Ok.bind (emit_ok _ s5 hb5) ?_
     intro _ s6 h6
-    exact goes_text h6.1
+    refine Steps.of (lo' := s.start + 1) (goes_text (h6.1.relo _ ?_)) (by simp [delta])
+    rw [h6.2.1, e5]
+    show s.start + 1 ≤ s.pos + _
+    have := h.startPos
+    omega
 
 /-! ### loops that only read on -/
 
-theorem rawQuoteLoop_ok : ∀ (fuel : Nat) (s : St), B inp d s → rem s < fuel → Ok (rawQuoteLoop fuel s) (Goes inp d)
-  | 0, _, _, hr => by omega
-  | fuel + 1, s, h, hr => by
+/-- `next` never moves the cursor backwards -/
+theorem pos_next_le {s s1 : St} {lo' : Int} (hn : N inp d lo s1)
+    (hs1 : s1 = { s with width := (runeAt s).2, pos := s.pos + (runeAt s).2 }) (hp : lo' ≤ s.pos) : lo' ≤ s1.pos := by
+  have := hn.width0
+  rw [hs1] at this ⊢
+  simp only at this ⊢
+  omega
+
+theorem rawQuoteLoop_ok (lo' : Int) : ∀ (fuel : Nat) (s : St), B inp d lo s → lo' ≤ s.pos → rem s < fuel →
+    Ok (rawQuoteLoop fuel s) (fun r s' => Goes inp d lo r s' ∧ (r ≠ none → lo' ≤ s'.start))
+  | 0, _, _, _, hr => by omega
+  | fuel + 1, s, h, hp, hr => by
     unfold rawQuoteLoop
     refine Ok.bind (next_ok s h) ?_
     intro r s1 h1
     obtain ⟨hr1, hs1, hn⟩ := h1
+    have hp1 := pos_next_le hn hs1 hp
     cases r with
-    | none => exact (errorf_ok _ s1 hn.toB).mono (fun r s' h => ⟨h.2.1, by intro st hst; rw [h.1] at hst; cases hst⟩)
+    | none => exact (errorf_ok _ s1 hn.toB).mono (fun r s' h => ⟨⟨h.2.1, by intro st hst; rw [h.1] at hst; cases hst⟩, fun hne => absurd h.1 hne⟩)
     | some c =>
       simp only
       have := rem_next s h (by rw [← hr1]; rfl)
@@ -477,19 +595,20 @@ theorem rawQuoteLoop_ok : ∀ (fuel : Nat) (s : St), B inp d s → rem s < fuel 
       split
       · refine Ok.bind (emit_ok _ s1 hn.toB) ?_
         intro _ s2 h2
-        exact goes_inside_emit h2
-      · exact rawQuoteLoop_ok fuel s1 hn.toB (by omega)
+        exact ⟨goes_inside_emit h2, fun _ => by rw [h2.2.1]; exact hp1⟩
+      · exact rawQuoteLoop_ok lo' fuel s1 hn.toB hp1 (by omega)
 
-theorem quotedLoop_ok (q : Nat) (t : Tok) (ht : t ≠ Tok.field) (msg : String) : ∀ (fuel : Nat) (s : St), B inp d s → rem s < fuel →
-    Ok (quotedLoop q t msg fuel s) (Goes inp d)
-  | 0, _, _, hr => by omega
-  | fuel + 1, s, h, hr => by
-    have err : ∀ s', B inp d s' → Ok (errorf msg s') (Goes inp d) := fun s' hb =>
-      (errorf_ok _ s' hb).mono (fun r s'' h => ⟨h.2.1, by intro st hst; rw [h.1] at hst; cases hst⟩)
+theorem quotedLoop_ok (q : Nat) (t : Tok) (ht : t ≠ Tok.field) (msg : String) (lo' : Int) : ∀ (fuel : Nat) (s : St), B inp d lo s → lo' ≤ s.pos → rem s < fuel →
+    Ok (quotedLoop q t msg fuel s) (fun r s' => Goes inp d lo r s' ∧ (r ≠ none → lo' ≤ s'.start))
+  | 0, _, _, _, hr => by omega
+  | fuel + 1, s, h, hp, hr => by
+    have err : ∀ s', B inp d lo s' → Ok (errorf msg s') (fun r s' => Goes inp d lo r s' ∧ (r ≠ none → lo' ≤ s'.start)) := fun s' hb =>
+      (errorf_ok _ s' hb).mono (fun r s'' h => ⟨⟨h.2.1, by intro st hst; rw [h.1] at hst; cases hst⟩, fun hne => absurd h.1 hne⟩)
     unfold quotedLoop
     refine Ok.bind (next_ok s h) ?_
     intro r s1 h1
     obtain ⟨hr1, hs1, hn⟩ := h1
+    have hp1 := pos_next_le hn hs1 hp
     cases r with
     | none => exact err s1 hn.toB
     | some c =>
@@ -500,6 +619,7 @@ theorem quotedLoop_ok (q : Nat) (t : Tok) (ht : t ≠ Tok.field) (msg : String) 
       · refine Ok.bind (next_ok s1 hn.toB) ?_
         intro r2 s2 h2
         obtain ⟨hr2, hs2, hn2⟩ := h2
+        have hp2 := pos_next_le hn2 hs2 hp1
         cases r2 with
         | none => exact err s2 hn2.toB
         | some c2 =>
@@ -508,55 +628,72 @@ theorem quotedLoop_ok (q : Nat) (t : Tok) (ht : t ≠ Tok.field) (msg : String) 
           rw [← hs2] at hrem2
           split
           · exact err s2 hn2.toB
-          · exact quotedLoop_ok q t ht msg fuel s2 hn2.toB (by omega)
+          · exact quotedLoop_ok q t ht msg lo' fuel s2 hn2.toB hp2 (by omega)
       · split
         · exact err s1 hn.toB
         · split
           · refine Ok.bind (emit_ok _ s1 hn.toB ht) ?_
             intro _ s2 h2
-            exact goes_inside_emit h2
-          · exact quotedLoop_ok q t ht msg fuel s1 hn.toB (by omega)
+            exact ⟨goes_inside_emit h2, fun _ => by rw [h2.2.1]; exact hp1⟩
+          · exact quotedLoop_ok q t ht msg lo' fuel s1 hn.toB hp1 (by omega)
 
-theorem rem_lt_fuelOf (s : St) (h : B inp d s) : rem s < fuelOf s := by
+theorem rem_lt_fuelOf (s : St) (h : B inp d lo s) : rem s < fuelOf s := by
   unfold rem fuelOf
   have := h.pos0
   omega
 
-theorem lexChar_ok (s : St) (h : B inp d s) : Ok (lexChar s) (Goes inp d) := by
+/-- a loop that leaves `start` at `lo'` or beyond whenever it selects a next state has moved it by
+    `delta` at least -/
+theorem steps_of_loop {st : StateId} {s : St} {r : Option StateId} {s' : St}
+    (h : Goes inp d lo r s' ∧ (r ≠ none → s.start + 1 ≤ s'.start)) (hmono : s.start ≤ s'.start) : Steps inp d st s r s' := by
+  refine ⟨h.1.1.relo _ ?_, h.1.2⟩
+  cases r with
+  | none => rw [delta_none]; omega
+  | some x => have := h.2 (by simp); have := delta_le_one st (some x); omega
+
+theorem lexChar_ok (s : St) (h : B inp d lo s) (he : Entry .char s) : Ok (lexChar s) (Steps inp d .char s) := by
   unfold lexChar
   rw [lbind_apply, get_apply]
-  exact quotedLoop_ok _ _ (by decide) _ _ s h (rem_lt_fuelOf s h)
+  refine (quotedLoop_ok _ _ (by decide) _ (s.start + 1) _ s (h.relo s.start (Int.le_refl _)) (by have : s.start < s.pos := he; omega) (rem_lt_fuelOf s h)).mono ?_
+  intro r s' hr
+  exact steps_of_loop hr hr.1.1.low
 
-theorem lexQuote_ok (s : St) (h : B inp d s) : Ok (lexQuote s) (Goes inp d) := by
+theorem lexQuote_ok (s : St) (h : B inp d lo s) (he : Entry .quote s) : Ok (lexQuote s) (Steps inp d .quote s) := by
   unfold lexQuote
   rw [lbind_apply, get_apply]
-  exact quotedLoop_ok _ _ (by decide) _ _ s h (rem_lt_fuelOf s h)
+  refine (quotedLoop_ok _ _ (by decide) _ (s.start + 1) _ s (h.relo s.start (Int.le_refl _)) (by have : s.start < s.pos := he; omega) (rem_lt_fuelOf s h)).mono ?_
+  intro r s' hr
+  exact steps_of_loop hr hr.1.1.low
 
-theorem lexRawQuote_ok (s : St) (h : B inp d s) : Ok (lexRawQuote s) (Goes inp d) := by
+theorem lexRawQuote_ok (s : St) (h : B inp d lo s) (he : Entry .rawQuote s) : Ok (lexRawQuote s) (Steps inp d .rawQuote s) := by
   unfold lexRawQuote
   rw [lbind_apply, get_apply]
-  exact rawQuoteLoop_ok _ s h (rem_lt_fuelOf s h)
+  refine (rawQuoteLoop_ok (s.start + 1) _ s (h.relo s.start (Int.le_refl _)) (by have : s.start < s.pos := he; omega) (rem_lt_fuelOf s h)).mono ?_
+  intro r s' hr
+  exact steps_of_loop hr hr.1.1.low
 
 /-! ### numbers and fields -/
 
-theorem scanTail3_ok (s : St) (h : B inp d s) : Ok ((do
+theorem scanTail3_ok (s : St) (h : B inp d lo s) : Ok ((do
     let _ ← accept [105]
     let p ← peek
     if isAlphaNumeric p = true then do
         let _ ← next
         pure false
-      else pure true : M Bool) s) (fun _ s' => B inp d s') := by
+      else pure true : M Bool) s) (fun _ s' => B inp d lo s' ∧ s.pos ≤ s'.pos) := by
   refine Ok.bind (accept_ok _ s h) ?_
   intro _ s1 h1
-  refine Ok.bind (peek_ok s1 h1) ?_
+  refine Ok.bind (peek_ok s1 h1.1) ?_
   intro p s2 h2
+  have hp2 : s2.pos = s1.pos := by rw [h2.2.1]
   split
   · refine Ok.bind (next_ok s2 h2.2.2) ?_
     intro _ s3 h3
-    exact h3.2.2.toB
-  · exact h2.2.2
+    have := pos_next_le (lo' := s2.pos) h3.2.2 h3.2.1 (Int.le_refl _)
+    exact ⟨h3.2.2.toB, by have := h1.2.2.1; omega⟩
+  · exact ⟨h2.2.2, by have := h1.2.2.1; omega⟩
 
-theorem scanTail2_ok (s : St) (h : B inp d s) : Ok ((do
+theorem scanTail2_ok (s : St) (h : B inp d lo s) : Ok ((do
     let e ← accept [101, 69]
     if e = true then do
         let _ ← accept [43, 45]
@@ -573,56 +710,122 @@ theorem scanTail2_ok (s : St) (h : B inp d s) : Ok ((do
         if isAlphaNumeric p = true then do
             let _ ← next
             pure false
-          else pure true : M Bool) s) (fun _ s' => B inp d s') := by
+          else pure true : M Bool) s) (fun _ s' => B inp d lo s' ∧ s.pos ≤ s'.pos) := by
   refine Ok.bind (accept_ok _ s h) ?_
   intro e s1 h1
   split
-  · refine Ok.bind (accept_ok _ s1 h1) ?_
+  · refine Ok.bind (accept_ok _ s1 h1.1) ?_
     intro _ s2 h2
-    refine Ok.bind (acceptRun_ok _ s2 h2) ?_
+    refine Ok.bind (acceptRun_ok _ s2 h2.1) ?_
     intro _ s3 h3
-    exact scanTail3_ok s3 h3
-  · exact scanTail3_ok s1 h1
+    refine (scanTail3_ok s3 h3.1).mono ?_
+    intro _ s' h'
+    exact ⟨h'.1, by have := h1.2.2.1; have := h2.2.2.1; have := h3.2.1; have := h'.2; omega⟩
+  · refine (scanTail3_ok s1 h1.1).mono ?_
+    intro _ s' h'
+    exact ⟨h'.1, by have := h1.2.2.1; have := h'.2; omega⟩
 
-theorem scanNumber_ok (s : St) (h : B inp d s) : Ok (scanNumber s) (fun _ s' => B inp d s') := by
+theorem runeIn_digit (hex : Bool) (c : Nat) (h0 : 48 ≤ c) (h1 : c ≤ 57) :
+    runeIn (if hex = true then digits16 else digits10) (some c) = true := by
+  have : c = 48 ∨ c = 49 ∨ c = 50 ∨ c = 51 ∨ c = 52 ∨ c = 53 ∨ c = 54 ∨ c = 55 ∨ c = 56 ∨ c = 57 := by omega
+  cases hex <;> rcases this with rfl | rfl | rfl | rfl | rfl | rfl | rfl | rfl | rfl | rfl <;> decide
+
+theorem runeIn_dot (hex : Bool) : runeIn (if hex = true then digits16 else digits10) (some 46) = false := by
+  cases hex <;> decide
+
+/-- `scanNumber` does not crash, never moves backwards, and entered on a sign, a dot or a digit it
+    consumes at least that rune -/
+theorem scanNumber_ok (s : St) (h : B inp d lo s) :
+    Ok (scanNumber s) (fun _ s' => B inp d lo s' ∧ (Entry .number s → s.pos + 1 ≤ s'.pos)) := by
   unfold scanNumber
   simp only []
   refine Ok.bind (accept_ok _ s h) ?_
-  intro _ s1 h1
-  refine Ok.bind (accept_ok _ s1 h1) ?_
+  intro a1 s1 h1
+  refine Ok.bind (accept_ok _ s1 h1.1) ?_
   intro z s2 h2
-  refine Ok.bind (Q := fun _ s' => B inp d s') ?_ ?_
+  refine Ok.bind (Q := fun _ s' => B inp d lo s' ∧ s2.pos ≤ s'.pos) ?_ ?_
   · split
-    · exact accept_ok _ s2 h2
-    · exact h2
+    · exact (accept_ok _ s2 h2.1).mono (fun _ s' h' => ⟨h'.1, h'.2.2.1⟩)
+    · exact ⟨h2.1, Int.le_refl _⟩
   intro hex s3 h3
-  refine Ok.bind (acceptRun_ok _ s3 h3) ?_
+  refine Ok.bind (acceptRun_ok _ s3 h3.1) ?_
   intro _ s4 h4
-  refine Ok.bind (accept_ok _ s4 h4) ?_
+  refine Ok.bind (accept_ok _ s4 h4.1) ?_
   intro dot s5 h5
+  -- everything after the dot only moves forward
+  have tailQ : ∀ (r : Bool) s', (B inp d lo s' ∧ s5.pos ≤ s'.pos) → B inp d lo s' ∧ (Entry .number s → s.pos + 1 ≤ s'.pos) := by
+    intro r s' h'
+    refine ⟨h'.1, ?_⟩
+    intro he
+    obtain ⟨c, hc, hcase⟩ := he
+    have m1 := h1.2.2.1; have m2 := h2.2.2.1; have m3 := h3.2; have m4 := h4.2.1; have m5 := h5.2.2.1; have m6 := h'.2
+    -- the first accept
+    by_cases c1 : a1 = true
+    · have := h1.2.2.2.1 c1; omega
+    have c1' : a1 = false := by simpa using c1
+    have p1 := h1.2.2.2.2 c1'
+    have r1 : runeAt s1 = runeAt s := runeAt_congr s1 s (by rw [h1.1.input, h.input]) p1
+    by_cases c2 : z = true
+    · have := h2.2.2.2.1 c2; omega
+    have c2' : z = false := by simpa using c2
+    have p2 := h2.2.2.2.2 c2'
+    have r2 : runeAt s2 = runeAt s := by
+      rw [runeAt_congr s2 s1 (by rw [h2.1.input, h1.1.input]) p2, r1]
+    by_cases c3 : s3.pos = s2.pos
+    · have r3 : runeAt s3 = runeAt s := by
+        rw [runeAt_congr s3 s2 (by rw [h3.1.input, h2.1.input]) c3, r2]
+      -- which rune is it
+      have hn1 : runeIn [43, 45] (some c) = false := by rw [← hc, ← c1']; exact h1.2.1.symm
+      have hn2 : runeIn [48] (some c) = false := by rw [← hc, ← r1, ← c2']; exact h2.2.1.symm
+      rcases hcase with rfl | rfl | rfl | ⟨d0, d1⟩
+      · simp [runeIn] at hn1
+      · simp [runeIn] at hn1
+      · -- a dot: the digit run takes nothing, the dot is accepted
+        have p4 := h4.2.2.2 (by rw [r3, hc]; exact runeIn_dot hex)
+        have r4 : runeAt s4 = runeAt s := by
+          rw [runeAt_congr s4 s3 (by rw [h4.1.input, h3.1.input]) p4, r3]
+        have hd : dot = true := by rw [h5.2.1, r4, hc]; decide
+        have := h5.2.2.2.1 hd
+        omega
+      · have := h4.2.2.1 (by rw [r3, hc]; exact runeIn_digit hex c d0 d1)
+        omega
+    · omega
   split
-  · refine Ok.bind (acceptRun_ok _ s5 h5) ?_
+  · refine Ok.bind (acceptRun_ok _ s5 h5.1) ?_
     intro _ s6 h6
-    exact scanTail2_ok s6 h6
-  · exact scanTail2_ok s5 h5
+    refine (scanTail2_ok s6 h6.1).mono ?_
+    intro r s' h'
+    exact tailQ r s' ⟨h'.1, by have := h6.2.1; have := h'.2; omega⟩
+  · exact (scanTail2_ok s5 h5.1).mono tailQ
 
-theorem goes_none {s' : St} (h : B inp d s') : Goes inp d none s' := ⟨h, by intro st hst; cases hst⟩
+theorem goes_none {s' : St} (h : B inp d lo s') : Goes inp d lo none s' := ⟨h, by intro st hst; cases hst⟩
 
-theorem errorf_goes (msg : String) (s : St) (h : B inp d s) : Ok (errorf msg s) (Goes inp d) :=
+theorem errorf_goes (msg : String) (s : St) (h : B inp d lo s) : Ok (errorf msg s) (Goes inp d lo) :=
   (errorf_ok msg s h).mono (fun r s' h => ⟨h.2.1, by intro st hst; rw [h.1] at hst; cases hst⟩)
 
-theorem lexNumber_ok (s : St) (h : B inp d s) : Ok (lexNumber s) (Goes inp d) := by
+/-- an error ends the scan: nothing is asked of `start` -/
+theorem errorf_steps {lo' : Int} (st : StateId) (s0 : St) (msg : String) (s : St) (h : B inp d lo' s) (hl : s0.start ≤ lo') :
+    Ok (errorf msg s) (Steps inp d st s0) :=
+  (errorf_ok msg s h).mono (fun r s' h' => Steps.of (lo' := lo')
+    ⟨h'.2.1, by intro st hst; rw [h'.1] at hst; cases hst⟩ (by rw [h'.1, delta_none]; omega))
+
+theorem lexNumber_ok (s : St) (h : B inp d lo s) (he : Entry .number s) : Ok (lexNumber s) (Steps inp d .number s) := by
+  have h := h.relo s.start (Int.le_refl _)
   unfold lexNumber
   refine Ok.bind (scanNumber_ok s h) ?_
   intro okNum s1 h1
   split
-  · exact errorf_goes _ s1 h1
-  · refine Ok.bind (emit_ok _ s1 h1) ?_
+  · exact errorf_steps _ s _ s1 h1.1 (Int.le_refl _)
+  · refine Ok.bind (emit_ok _ s1 h1.1) ?_
     intro _ s2 h2
-    exact goes_inside_emit h2
+    refine Steps.of (lo' := s.start + 1) (goes_inside_emit ⟨h2.1.relo _ ?_, h2.2⟩) (by simp [delta])
+    rw [h2.2.1]
+    have := h1.2 he
+    have := h.startPos
+    omega
 
-theorem lexFieldLoop_ok : ∀ (fuel : Nat) (s : St), B inp d s → rem s < fuel →
-    Ok (lexFieldLoop fuel s) (fun _ s' => B inp d s' ∧ s'.start = s.start ∧ s.pos ≤ s'.pos)
+theorem lexFieldLoop_ok : ∀ (fuel : Nat) (s : St), B inp d lo s → rem s < fuel →
+    Ok (lexFieldLoop fuel s) (fun _ s' => B inp d lo s' ∧ s'.start = s.start ∧ s.pos ≤ s'.pos)
   | 0, _, _, hr => by omega
   | fuel + 1, s, h, hr => by
     unfold lexFieldLoop
@@ -658,7 +861,7 @@ theorem termVal_congr (s t : St) (hi : s.input = t.input) (hp : s.pos = t.pos) (
   rw [runeAt_congr s t hi hp, hd]
 
 /-- two or more pending bytes, the first of them a dot -/
-theorem pending_field (s : St) (h : B inp d s) (tl : Bytes) (hdot : s.input.drop s.start.toNat = 46 :: tl)
+theorem pending_field (s : St) (h : B inp d lo s) (tl : Bytes) (hdot : s.input.drop s.start.toNat = 46 :: tl)
     (hlen : s.start + 2 ≤ s.pos) : ∃ c cs, pending s = 46 :: c :: cs := by
   unfold pending
   rw [hdot]
@@ -672,8 +875,9 @@ theorem pending_field (s : St) (h : B inp d s) (tl : Bytes) (hdot : s.input.drop
   | nil => simp at hl; omega
   | cons c cs => exact ⟨c, cs.take k, by simp [List.take]⟩
 
-theorem lexField_ok (s : St) (h : B inp d s) (he : Entry .field s) : Ok (lexField s) (Goes inp d) := by
+theorem lexField_ok (s : St) (h : B inp d lo s) (he : Entry .field s) : Ok (lexField s) (Steps inp d .field s) := by
   obtain ⟨hsp, tl, hdot⟩ := he
+  have h := h.relo s.start (Int.le_refl _)
   unfold lexField
   refine Ok.bind (atTerminator_ok s h) ?_
   intro t s1 h1
@@ -682,7 +886,10 @@ theorem lexField_ok (s : St) (h : B inp d s) (he : Entry .field s) : Ok (lexFiel
   · rw [if_pos htt]
     refine Ok.bind (emit_ok _ s1 hb1) ?_
     intro _ s2 h2
-    exact goes_inside_emit h2
+    refine Steps.of (lo' := s.start + 1) (goes_inside_emit ⟨h2.1.relo _ ?_, h2.2⟩) (by simp [delta])
+    rw [h2.2.1, hs1]
+    show s.start + 1 ≤ s.pos
+    omega
   · rw [if_neg htt]
     refine Ok.bind (ok_get s1) ?_
     intro g s2 e2
@@ -695,7 +902,7 @@ theorem lexField_ok (s : St) (h : B inp d s) (he : Entry .field s) : Ok (lexFiel
     obtain ⟨hs4, hb4, ht2⟩ := h4
     by_cases ht2t : (!t2) = true
     · rw [if_pos ht2t]
-      exact errorf_goes _ s4 hb4
+      exact errorf_steps _ s _ s4 hb4 (Int.le_refl _)
     · rw [if_neg ht2t]
       have hp1 : s1.pos = s.pos := by rw [hs1]
       have hst1 : s1.start = s.start := by rw [hs1]
@@ -714,7 +921,9 @@ theorem lexField_ok (s : St) (h : B inp d s) (he : Entry .field s) : Ok (lexFiel
       have hi4 : s4.input = s.input := by rw [hb4.input, h.input]
       refine Ok.bind (emit_ok' Tok.field s4 hb4 (fun _ => pending_field s4 hb4 tl (by rw [hi4, hst4]; exact hdot) (by rw [hst4, hp4]; omega))) ?_
       intro _ s5 h5
-      exact goes_inside_emit h5
+      refine Steps.of (lo' := s.start + 1) (goes_inside_emit ⟨h5.1.relo _ ?_, h5.2⟩) (by simp [delta])
+      rw [h5.2.1, hp4]
+      omega
 
 /-! ### spaces -/
 
@@ -725,8 +934,9 @@ theorem isSpace_some {r : Option Nat} (h : isSpace r = true) : r.isSome := by
   | none => simp [isSpace] at h
   | some c => rfl
 
-theorem lexSpaceLoop_ok : ∀ (fuel : Nat) (s : St) (n : Nat), B inp d s → s.start < s.pos → rem s < fuel →
-    Ok (lexSpaceLoop fuel n s) (fun _ s' => B inp d s' ∧ s'.start < s'.pos ∧ s'.width = (runeAt s').2)
+theorem lexSpaceLoop_ok : ∀ (fuel : Nat) (s : St) (n : Nat), B inp d lo s → s.start < s.pos → rem s < fuel →
+    Ok (lexSpaceLoop fuel n s) (fun _ s' => B inp d lo s' ∧ s'.start < s'.pos ∧ s'.width = (runeAt s').2 ∧
+      s'.start = s.start ∧ s.pos ≤ s'.pos)
   | 0, _, _, _, _, hr => by omega
   | fuel + 1, s, n, h, hlt, hr => by
     unfold lexSpaceLoop
@@ -746,12 +956,14 @@ theorem lexSpaceLoop_ok : ∀ (fuel : Nat) (s : St) (n : Nat), B inp d s → s.s
       have e2 : s2.pos = s.pos + (runeAt s).2 := by rw [hs2, hra, hs1]
       have e2s : s2.start = s.start := by rw [hs2, hs1]
       have e2i : s2.input = s.input := by rw [hs2, hs1]
-      refine lexSpaceLoop_ok fuel s2 (n + 1) hn2.toB (by rw [e2, e2s]; omega) ?_
-      unfold rem at hrem hr ⊢
-      rw [e2, e2i]
-      simp only at hrem
-      omega
-    · refine ⟨hb1, by rw [hs1]; exact hlt, ?_⟩
+      refine (lexSpaceLoop_ok fuel s2 (n + 1) hn2.toB (by rw [e2, e2s]; omega) ?_).mono ?_
+      · unfold rem at hrem hr ⊢
+        rw [e2, e2i]
+        simp only at hrem
+        omega
+      · intro _ s' h'
+        exact ⟨h'.1, h'.2.1, h'.2.2.1, by rw [h'.2.2.2.1, e2s], by have := h'.2.2.2.2; omega⟩
+    · refine ⟨hb1, by rw [hs1]; exact hlt, ?_, by rw [hs1], by rw [hs1]; exact Int.le_refl _⟩
       rw [hs1]
       rfl
 
@@ -771,14 +983,16 @@ theorem drop_succ_of_prefix (inp : Bytes) (p : Nat) (a b : UInt8) (r : Bytes) (h
       rw [e, ← List.drop_drop, hd]
       simp [h.2.1]
 
-theorem lexSpace_ok (s : St) (h : B inp d s) (he : Entry .space s) : Ok (lexSpace s) (Goes inp d) := by
+theorem lexSpace_ok (s : St) (h : B inp d lo s) (he : Entry .space s) : Ok (lexSpace s) (Steps inp d .space s) := by
+  have h := h.relo s.start (Int.le_refl _)
+  obtain ⟨hsp, hnp⟩ := he
   unfold lexSpace
   refine Ok.bind (ok_get s) ?_
   intro g s0 e0
   obtain ⟨rfl, rfl⟩ := e0
-  refine Ok.bind (lexSpaceLoop_ok _ s 0 h he (rem_lt_fuelOf s h)) ?_
+  refine Ok.bind (lexSpaceLoop_ok _ s 0 h (by omega) (rem_lt_fuelOf s h)) ?_
   intro numSpaces s1 h1
-  obtain ⟨hb1, hlt1, hw1⟩ := h1
+  obtain ⟨hb1, hlt1, hw1, hst1, hpm1⟩ := h1
   refine Ok.bind (ok_get s1) ?_
   intro g1 s2 e2
   obtain ⟨rfl, rfl⟩ := e2
@@ -786,9 +1000,18 @@ theorem lexSpace_ok (s : St) (h : B inp d s) (he : Entry .space s) : Ok (lexSpac
   refine Ok.bind (ok_restAt s1 hb1 (s1.pos - 1) hp1 (by have := hb1.posLen; omega)) ?_
   intro r s3 e3
   obtain ⟨rfl, rfl⟩ := e3
-  refine Ok.bind (Q := fun g s' => B inp d s' ∧ (g = true → hasPrefix (rest s') s'.d.trimRight = true)) ?_ ?_
+  refine Ok.bind (Q := fun g s' => B inp d s.start s' ∧ (g = true → hasPrefix (rest s') s'.d.trimRight = true) ∧
+      s.start + 1 ≤ s'.pos) ?_ ?_
   · by_cases hp : hasPrefix (List.drop (s1.pos - 1).toNat s1.input) s1.d.trimRight = true
     · rw [if_pos hp]
+      -- the loop moved: at the entry position the caller had found no trim marker
+      have hmoved : s.pos + 1 ≤ s1.pos := by
+        by_cases hm : s.pos + 1 ≤ s1.pos
+        · exact hm
+        · exfalso
+          have hpe : s1.pos - 1 = s.start := by omega
+          rw [hpe, hb1.input, ← h.input, hb1.delims, ← h.delims, hnp] at hp
+          exact Bool.noConfusion hp
       have htr : s1.d.trimRight = rightTrimMarker ++ s1.d.right := by rw [hb1.delims]; exact hb1.wfd.trimRight
       have hp' := hp
       rw [htr] at hp'
@@ -806,22 +1029,26 @@ theorem lexSpace_ok (s : St) (h : B inp d s) (he : Entry .space s) : Ok (lexSpac
         simp only [hlen, if_false]
         rw [htl]
         simp [decodeRune]
-      refine Ok.bind (Q := fun _ s' => B inp d s' ∧ hasPrefix (rest s') s'.d.trimRight = true) ?_ ?_
+      refine Ok.bind (Q := fun _ s' => B inp d s.start s' ∧ hasPrefix (rest s') s'.d.trimRight = true ∧ s.start + 1 ≤ s'.pos) ?_ ?_
       · rw [backup_eq]
-        refine ⟨hb1.setPos _ (by rw [hwidth]; omega) (by rw [hwidth]; have := hb1.posLen; omega), ?_⟩
-        show hasPrefix (List.drop (s1.pos - s1.width).toNat s1.input) s1.d.trimRight = true
-        rw [hwidth]; exact hp
+        refine ⟨hb1.setPos _ (by rw [hwidth]; omega) (by rw [hwidth]; have := hb1.posLen; omega), ?_, ?_⟩
+        · show hasPrefix (List.drop (s1.pos - s1.width).toNat s1.input) s1.d.trimRight = true
+          rw [hwidth]; exact hp
+        · show s.start + 1 ≤ s1.pos - s1.width
+          rw [hwidth]; omega
       · intro _ s4 h4
-        exact ⟨h4.1, fun _ => h4.2⟩
+        exact ⟨h4.1, fun _ => h4.2.1, h4.2.2⟩
     · rw [if_neg hp]
-      exact ⟨hb1, fun hc => by simp at hc⟩
+      exact ⟨hb1, fun hc => by simp at hc, by omega⟩
   intro goRight s5 h5
   split
   · rename_i hg
-    exact ⟨h5.1, by intro st hst; cases hst; exact Or.inl (h5.2 hg)⟩
+    exact Steps.of (lo' := s.start) ⟨h5.1, by intro st hst; cases hst; exact Or.inl (h5.2.1 hg)⟩ (by simp [delta])
   · refine Ok.bind (emit_ok _ s5 h5.1) ?_
     intro _ s6 h6
-    exact goes_inside_emit h6
+    refine Steps.of (lo' := s.start + 1) (goes_inside_emit ⟨h6.1.relo _ ?_, h6.2⟩) (by simp [delta])
+    rw [h6.2.1]
+    exact h5.2.2
 
 /-! ### identifiers -/
 
@@ -831,7 +1058,7 @@ theorem slice_ok (inp : Bytes) (a b : Int) (h0 : 0 ≤ a) (h1 : a ≤ b) (h2 : b
   · simp [slice, h0, h1, h2]
   · rw [List.length_take, List.length_drop]; omega
 
-theorem emitWord_ok (kw : Option Tok) (word : Bytes) (s : St) (h : B inp d s) :
+theorem emitWord_ok (kw : Option Tok) (word : Bytes) (s : St) (h : B inp d lo s) :
     (∀ t, kw = some t → t ≠ Tok.field) → (∃ c rest, word = c :: rest ∧ c ≠ 46) →
     Ok ((match kw with
       | some t => emit t
@@ -842,7 +1069,7 @@ theorem emitWord_ok (kw : Option Tok) (word : Bytes) (s : St) (h : B inp d s) :
           if c == 46 then emit Tok.field
           else if word == wordTrue || word == wordFalse then emit Tok.bool
           else emit Tok.identifier : M Unit) s)
-      (fun _ s' => B inp d s' ∧ s'.start = s.pos ∧ s'.pos = s.pos ∧ s'.width = s.width ∧ s'.parenDepth = s.parenDepth) := by
+      (fun _ s' => B inp d lo s' ∧ s'.start = s.pos ∧ s'.pos = s.pos ∧ s'.width = s.width ∧ s'.parenDepth = s.parenDepth) := by
   intro hkw hw
   cases kw with
   | some t => exact emit_ok _ s h (hkw t rfl)
@@ -855,8 +1082,8 @@ theorem emitWord_ok (kw : Option Tok) (word : Bytes) (s : St) (h : B inp d s) :
     · exact emit_ok _ s h
     · exact emit_ok _ s h
 
-theorem lexIdentifierLoop_ok : ∀ (fuel : Nat) (s : St), B inp d s → Entry .identifier s → rem s < fuel →
-    Ok (lexIdentifierLoop fuel s) (Goes inp d)
+theorem lexIdentifierLoop_ok : ∀ (fuel : Nat) (s : St), B inp d lo s → Entry .identifier s → rem s < fuel →
+    Ok (lexIdentifierLoop fuel s) (fun r s' => Goes inp d lo r s' ∧ (r ≠ none → s.start + 1 ≤ s'.start))
   | 0, _, _, _, hr => by omega
   | fuel + 1, s, h, he, hr => by
     obtain ⟨⟨b0, tl0, hfirst, hb0⟩, he⟩ := he
@@ -874,7 +1101,9 @@ theorem lexIdentifierLoop_ok : ∀ (fuel : Nat) (s : St), B inp d s → Entry .i
       have hrem := rem_next s h hsome
       rw [← hs1] at hrem
       have hw := hbnd.2.2.1 hsome
-      refine lexIdentifierLoop_ok fuel s1 hn.toB ⟨⟨b0, tl0, by rw [hs1]; exact hfirst, hb0⟩, Or.inl ?_⟩ (by omega)
+      have hst1 : s1.start = s.start := by rw [hs1]
+      refine (lexIdentifierLoop_ok fuel s1 hn.toB ⟨⟨b0, tl0, by rw [hs1]; exact hfirst, hb0⟩, Or.inl ?_⟩ (by omega)).mono
+        (fun r s' h' => ⟨h'.1, fun hne => by have := h'.2 hne; omega⟩)
       rw [hs1]; show s.start < s.pos + (runeAt s).2
       have := h.startPos; omega
     · rename_i hal
@@ -899,8 +1128,10 @@ theorem lexIdentifierLoop_ok : ∀ (fuel : Nat) (s : St), B inp d s → Entry .i
       refine Ok.bind (atTerminator_ok s2 hb2) ?_
       intro term s4 h4
       split
-      · exact errorf_goes _ s4 h4.2.1
-      · refine Ok.bind (emitWord_ok _ word s4 h4.2.1 ?_ ?_) (fun _ s5 h5 => goes_inside_emit h5)
+      · exact (errorf_ok _ s4 h4.2.1).mono (fun r s' h' =>
+          ⟨⟨h'.2.1, by intro st hst; rw [h'.1] at hst; cases hst⟩, fun hne => absurd h'.1 hne⟩)
+      · refine Ok.bind (emitWord_ok _ word s4 h4.2.1 ?_ ?_) (fun _ s5 h5 => ⟨goes_inside_emit h5, fun _ => by
+          rw [h5.2.1, h4.1]; show s.start + 1 ≤ s2.pos; omega⟩)
         · intro t ht
           split at ht
           · rename_i t' _
@@ -915,10 +1146,12 @@ theorem lexIdentifierLoop_ok : ∀ (fuel : Nat) (s : St), B inp d s → Entry .i
           rw [hwordeq, hst2, ← h.input, hfirst, hk]
           simp [List.take]
 
-theorem lexIdentifier_ok (s : St) (h : B inp d s) (he : Entry .identifier s) : Ok (lexIdentifier s) (Goes inp d) := by
+theorem lexIdentifier_ok (s : St) (h : B inp d lo s) (he : Entry .identifier s) : Ok (lexIdentifier s) (Steps inp d .identifier s) := by
   unfold lexIdentifier
   rw [lbind_apply, get_apply]
-  exact lexIdentifierLoop_ok _ s h he (rem_lt_fuelOf s h)
+  refine (lexIdentifierLoop_ok _ s (h.relo s.start (Int.le_refl _)) he (rem_lt_fuelOf s h)).mono ?_
+  intro r s' hr
+  exact steps_of_loop hr hr.1.1.low
 
 /-! ### text -/
 
@@ -964,7 +1197,10 @@ theorem firstByte_ok (b : Bytes) (hb : b ≠ []) (s : St) : Ok (firstByte b s) (
   | nil => exact (hb rfl).elim
   | cons c rest => rfl
 
-theorem lexTextEnd_ok (s : St) (h : B inp d s) : Ok (lexTextLoop.lexTextEnd s) (Goes inp d) := by
+/-- the states `lexText` hands over to -/
+def TextNext (r : Option StateId) : Prop := r = none ∨ r = some .leftDelim ∨ r = some .comment
+
+theorem lexTextEnd_ok (s : St) (h : B inp d lo s) : Ok (lexTextLoop.lexTextEnd s) (fun r s' => Goes inp d lo r s' ∧ TextNext r) := by
   unfold lexTextLoop.lexTextEnd
   refine Ok.bind (ok_get s) ?_
   intro g s1 e1
@@ -975,13 +1211,14 @@ theorem lexTextEnd_ok (s : St) (h : B inp d s) : Ok (lexTextLoop.lexTextEnd s) (
     intro _ s2 h2
     refine Ok.bind (emit_ok _ s2 h2.1) ?_
     intro _ s3 h3
-    exact goes_none h3.1
+    exact ⟨goes_none h3.1, Or.inl rfl⟩
   · rw [if_neg hp]
     refine Ok.bind (emit_ok _ s h) ?_
     intro _ s3 h3
-    exact goes_none h3.1
+    exact ⟨goes_none h3.1, Or.inl rfl⟩
 
-theorem lexTextLoop_ok : ∀ (fuel : Nat) (s : St), B inp d s → rem s < fuel → Ok (lexTextLoop fuel s) (Goes inp d)
+theorem lexTextLoop_ok : ∀ (fuel : Nat) (s : St), B inp d lo s → rem s < fuel →
+    Ok (lexTextLoop fuel s) (fun r s' => Goes inp d lo r s' ∧ TextNext r)
   | 0, _, _, hr => by omega
   | fuel + 1, s, h, hr => by
     unfold lexTextLoop
@@ -1014,7 +1251,7 @@ theorem lexTextLoop_ok : ∀ (fuel : Nat) (s : St), B inp d s → rem s < fuel 
       rw [h.input] at hi
       refine Ok.bind (ok_modify _ s) ?_
       intro _ s1 e1
-      have hb1 : B inp d s1 := by rw [e1]; exact h.setPos _ (by have := h.startPos; omega) (by omega)
+      have hb1 : B inp d lo s1 := by rw [e1]; exact h.setPos _ (by have := h.startPos; omega) (by omega)
       have hp1 : s1.pos = s.pos + i := by rw [e1]
       refine Ok.bind (ok_get s1) ?_
       intro g s2 e2
@@ -1040,23 +1277,23 @@ theorem lexTextLoop_ok : ∀ (fuel : Nat) (s : St), B inp d s → rem s < fuel 
         obtain ⟨rfl, htl0, htl1⟩ := h2
         refine Ok.bind (ok_modify _ s1) ?_
         intro _ s3 e3
-        have hb3 : B inp d s3 := by rw [e3]; exact hb1.setPos _ (by omega) (by have := hb1.posLen; omega)
+        have hb3 : B inp d lo s3 := by rw [e3]; exact hb1.setPos _ (by omega) (by have := hb1.posLen; omega)
         refine Ok.bind (ok_get s3) ?_
         intro g s4 e4
         obtain ⟨rfl, rfl⟩ := e4
-        have fin : ∀ s5, B inp d s5 → s5.pos = s1.pos - tl → Ok ((do
+        have fin : ∀ s5, B inp d lo s5 → s5.pos = s1.pos - tl → Ok ((do
             modify fun s => { s with pos := s.pos + tl }
             ignore IgnKind.trimLeft
-            pure (some StateId.leftDelim) : M (Option StateId)) s5) (Goes inp d) := by
+            pure (some StateId.leftDelim) : M (Option StateId)) s5) (fun r s' => Goes inp d lo r s' ∧ TextNext r) := by
           intro s5 hb5 hp5
           refine Ok.bind (ok_modify _ s5) ?_
           intro _ s6 e6
-          have hb6 : B inp d s6 := by
+          have hb6 : B inp d lo s6 := by
             rw [e6]; exact hb5.setPos _ (by have := hb5.startPos; omega) (by rw [hp5]; have := hb1.posLen; omega)
           have hp6 : s6.pos = s1.pos := by rw [e6]; show s5.pos + tl = s1.pos; omega
           refine Ok.bind (ignore_ok _ s6 hb6) ?_
           intro _ s7 h7
-          refine ⟨h7.1, ?_⟩
+          refine ⟨⟨h7.1, ?_⟩, Or.inr (Or.inl rfl)⟩
           intro st hst
           cases hst
           show hasPrefix (List.drop s7.pos.toNat s7.input) s7.d.left = true
@@ -1076,14 +1313,14 @@ theorem lexTextLoop_ok : ∀ (fuel : Nat) (s : St), B inp d s → rem s < fuel 
           · rw [if_pos hgt]
             refine Ok.bind (emit_ok _ s1 hb1) ?_
             intro _ s5 h5
-            refine ⟨h5.1, ?_⟩
+            refine ⟨⟨h5.1, ?_⟩, Or.inr (Or.inr rfl)⟩
             intro st hst
             cases hst
             show hasPrefix (List.drop s5.pos.toNat s5.input) s5.d.lcomment = true
             rw [h5.2.2.1, h5.1.input, h5.1.delims, ← hb1.input, ← hb1.delims]
             exact hc
           · rw [if_neg hgt]
-            exact ⟨hb1, by intro st hst; cases hst; exact hc⟩
+            exact ⟨⟨hb1, by intro st hst; cases hst; exact hc⟩, Or.inr (Or.inr rfl)⟩
         · rw [if_neg hc]
           refine Ok.bind (next_ok s1 hb1) ?_
           intro r s2 h2
@@ -1102,10 +1339,13 @@ theorem lexTextLoop_ok : ∀ (fuel : Nat) (s : St), B inp d s → rem s < fuel 
             rw [this] at hrem ⊢
             omega
 
-theorem lexText_ok (s : St) (h : B inp d s) : Ok (lexText s) (Goes inp d) := by
+theorem lexText_ok (s : St) (h : B inp d lo s) : Ok (lexText s) (Steps inp d .text s) := by
   unfold lexText
   rw [lbind_apply, get_apply]
-  exact lexTextLoop_ok _ s h (rem_lt_fuelOf s h)
+  refine (lexTextLoop_ok _ s (h.relo s.start (Int.le_refl _)) (rem_lt_fuelOf s h)).mono ?_
+  intro r s' hr
+  refine Steps.of hr.1 ?_
+  rcases hr.2 with rfl | rfl | rfl <;> simp [delta]
 
 /-! ### inside an action -/
 
@@ -1141,10 +1381,10 @@ theorem runeAt_ascii (s : St) (c : Nat) (h0 : 0 ≤ s.pos) (h : (runeAt s).1 = s
       have := decodeRune_ascii b rest (by rw [h]; exact hc)
       rw [this]; rfl
 
-theorem B.setParen {s : St} (h : B inp d s) (p : Int) : B inp d { s with parenDepth := p } :=
-  ⟨h.input, h.delims, h.wfd, h.start0, h.startPos, h.posLen, h.events, h.fields⟩
+theorem B.setParen {s : St} (h : B inp d lo s) (p : Int) : B inp d lo { s with parenDepth := p } :=
+  ⟨h.input, h.delims, h.wfd, h.start0, h.startPos, h.posLen, h.events, h.fields, h.low⟩
 
-theorem goes_entry_true {s' : St} (h : B inp d s') (st : StateId) (he : Entry st s') : Goes inp d (some st) s' :=
+theorem goes_entry_true {s' : St} (h : B inp d lo s') (st : StateId) (he : Entry st s') : Goes inp d lo (some st) s' :=
   ⟨h, by intro st' hst; cases hst; exact he⟩
 
 theorem singleTok_not_field (c : Nat) (t : Tok) (h : singleTok c = some t) : t ≠ Tok.field := by
@@ -1194,18 +1434,53 @@ theorem byte_of_rune_dot (b : UInt8) (tl : Bytes) (h : (decodeRune (b :: tl)).1 
 theorem rune_of_byte_dot (tl : Bytes) : (decodeRune ((46 : UInt8) :: tl)).1 = 46 := by
   simp [decodeRune]
 
-theorem fieldOrNumber_ok (fs : Bool) (s1 : St) (hn1 : N inp d s1) (hf : Entry .field s1) :
-    Ok ((if fs = true then pure (some StateId.field) else do backup; pure (some StateId.number) : M (Option StateId)) s1) (Goes inp d) := by
+/-- what `lexInsideAction` run with `start = st0` hands over: back to itself only with `start`
+    moved, never to `text`, a delimiter or a comment -/
+def InsideNext (st0 : Int) (r : Option StateId) (s' : St) : Prop :=
+  match r with
+  | some .insideAction => st0 + 1 ≤ s'.start
+  | some .text => False
+  | some .leftDelim => False
+  | some .comment => False
+  | _ => True
+
+theorem ia_emit {st0 : Int} {s1 s2 : St} (h2 : B inp d lo s2 ∧ s2.start = s1.pos ∧ s2.pos = s1.pos ∧ s2.width = s1.width ∧
+    s2.parenDepth = s1.parenDepth) (hadv : st0 + 1 ≤ s1.pos) :
+    Goes inp d lo (some StateId.insideAction) s2 ∧ InsideNext st0 (some StateId.insideAction) s2 :=
+  ⟨goes_inside_emit h2, by show st0 + 1 ≤ s2.start; rw [h2.2.1]; exact hadv⟩
+
+theorem ia_err {st0 : Int} (msg : String) (s : St) (h : B inp d lo s) :
+    Ok (errorf msg s) (fun r s' => Goes inp d lo r s' ∧ InsideNext st0 r s') :=
+  (errorf_ok msg s h).mono (fun r s' h' => by
+    rw [h'.1]; exact ⟨⟨h'.2.1, by intro st hst; cases hst⟩, trivial⟩)
+
+theorem steps_of_inside {s : St} {r : Option StateId} {s' : St}
+    (h : Goes inp d s.start r s' ∧ InsideNext s.start r s') : Steps inp d .insideAction s r s' := by
+  cases r with
+  | none => exact Steps.of h.1 (by simp [delta])
+  | some x =>
+    cases x
+    case insideAction => exact Steps.of (lo' := s.start + 1) ⟨h.1.1.relo _ h.2, h.1.2⟩ (by simp [delta])
+    case text => exact h.2.elim
+    case leftDelim => exact h.2.elim
+    case comment => exact h.2.elim
+    all_goals exact Steps.of h.1 (by simp [delta])
+
+theorem fieldOrNumber_ok {st0 : Int} (fs : Bool) (s1 : St) (hn1 : N inp d lo s1) (hf : Entry .field s1)
+    (hnum : Entry .number { s1 with pos := s1.pos - s1.width }) :
+    Ok ((if fs = true then pure (some StateId.field) else do backup; pure (some StateId.number) : M (Option StateId)) s1)
+      (fun r s' => Goes inp d lo r s' ∧ InsideNext st0 r s') := by
   cases fs with
-  | true => exact goes_entry_true hn1.toB .field hf
+  | true => exact ⟨goes_entry_true hn1.toB .field hf, trivial⟩
   | false =>
     simp only [Bool.false_eq_true, if_false]
     refine Ok.bind (backup_ok s1 hn1) ?_
     intro _ s3 h3
-    exact goes_entry_true h3.1 .number trivial
+    exact ⟨goes_entry_true h3.1 .number (by rw [h3.2]; exact hnum), trivial⟩
 
-theorem signArm_ok (excl : List String) (opTok : Tok) (hne : opTok ≠ Tok.field) (s : St) (h : B inp d s) (hlt : s.start < s.pos) :
-    Ok (signArm excl opTok s) (Goes inp d) := by
+theorem signArm_ok (excl : List String) (opTok : Tok) (hne : opTok ≠ Tok.field) (s : St) (h : B inp d lo s) (hlt : s.start < s.pos)
+    (hnum : Entry .number { s with width := 1, pos := s.pos - 1 }) :
+    Ok (signArm excl opTok s) (fun r s' => Goes inp d lo r s' ∧ InsideNext s.start r s') := by
   unfold signArm
   refine Ok.bind (peek_ok s h) ?_
   intro r s1 h1
@@ -1222,37 +1497,42 @@ theorem signArm_ok (excl : List String) (opTok : Tok) (hne : opTok ≠ Tok.field
     | some c =>
       simp only [isDigitRune, Bool.and_eq_true, decide_eq_true_eq] at hdig
       have hw : (runeAt s).2 = 1 := runeAt_ascii s c h.pos0 hr1.symm (by omega)
-      have hn1 : N inp d s1 := by
+      have hn1 : N inp d lo s1 := by
         refine ⟨hb1, ?_, ?_⟩
         · rw [hs1]; show 0 ≤ (runeAt s).2; rw [hw]; omega
         · rw [hs1]; show s.start ≤ s.pos - (runeAt s).2; rw [hw]; omega
       refine Ok.bind (backup_ok s1 hn1) ?_
       intro _ s3 h3
-      exact goes_entry_true h3.1 .number trivial
+      refine ⟨goes_entry_true h3.1 .number ?_, trivial⟩
+      rw [h3.2, hs1]
+      show Entry .number { s with width := (runeAt s).2, pos := s.pos - (runeAt s).2 }
+      rw [hw]
+      exact hnum
   · refine Ok.bind (emit_ok _ s1 hb1 hne) ?_
     intro _ s3 h3
-    exact goes_inside_emit h3
+    exact ia_emit h3 (by rw [hs1]; show s.start + 1 ≤ s.pos; omega)
 
-theorem lexInsideAction_ok (s : St) (h : B inp d s) (hse : Entry .insideAction s) : Ok (lexInsideAction s) (Goes inp d) := by
+theorem lexInsideAction_ok' (s : St) (h : B inp d lo s) (hse : Entry .insideAction s) :
+    Ok (lexInsideAction s) (fun r s' => Goes inp d lo r s' ∧ InsideNext s.start r s') := by
   unfold lexInsideAction
   refine Ok.bind (atRightDelim_ok s h) ?_
   intro x s0 h0
-  obtain ⟨rfl, hx⟩ := h0
+  obtain ⟨rfl, hx, hxn⟩ := h0
   refine Ok.bind (ok_get s0) ?_
   intro g s1 e1
   obtain ⟨rfl, rfl⟩ := e1
   by_cases hd : x.1 = true
   · rw [if_pos hd]
     split
-    · exact goes_entry_true h .rightDelim (hx hd)
-    · exact errorf_goes _ s0 h
+    · exact ⟨goes_entry_true h .rightDelim (hx hd), trivial⟩
+    · exact ia_err _ s0 h
   · rw [if_neg hd]
     refine Ok.bind (next_ok s0 h) ?_
     intro r s1 h1
     obtain ⟨hr1, hs1, hn1⟩ := h1
     have hbnd := runeAt_bounds s0 h.pos0 (by rw [h.input]; exact h.posLen)
     cases r with
-    | none => exact errorf_goes _ s1 hn1.toB
+    | none => exact ia_err _ s1 hn1.toB
     | some c =>
       simp only
       have hw1 : 1 ≤ (runeAt s0).2 := hbnd.2.2.1 (by rw [← hr1]; rfl)
@@ -1263,21 +1543,44 @@ theorem lexInsideAction_ok (s : St) (h : B inp d s) (hse : Entry .insideAction s
       have hse0 : s0.start = s0.pos := hse
       obtain ⟨b0, tl0, hdrop0, hrune0⟩ := runeAt_byte s0 h.pos0 c hr1.symm
       have hi1 : s1.input = s0.input := by rw [hs1]
+      have hadv : s0.start + 1 ≤ s1.pos := by omega
+      -- the state a `backup` over an ASCII rune returns to sees that rune again
+      have hback : ∀ w : Int, (runeAt s0).2 = 1 →
+          (runeAt ({ s1 with width := w, pos := s1.pos - 1 } : St)).1 = some c := by
+        intro w hw1'
+        rw [runeAt_congr _ s0 (by show s1.input = s0.input; exact hi1) (by show s1.pos - 1 = s0.pos; omega)]
+        exact hr1.symm
       by_cases c1 : isSpace (some c) = true
-      · rw [if_pos c1]; exact goes_entry_true hb1 .space hlt1
+      · rw [if_pos c1]
+        have hcs : c < 128 := by
+          simp only [isSpace, Bool.or_eq_true, beq_iff_eq] at c1; omega
+        have hw : (runeAt s0).2 = 1 := runeAt_ascii s0 c h.pos0 hr1.symm hcs
+        refine ⟨goes_entry_true hb1 .space ⟨by omega, ?_⟩, trivial⟩
+        rw [hi1, hst1, hse0]
+        have hdd : s1.d = s0.d := by rw [hs1]
+        rw [hdd]
+        exact hxn (by simpa using hd)
       rw [if_neg c1]
       by_cases c2 : (c == 45) = true
-      · rw [if_pos c2]; exact signArm_ok _ _ sign_not_field.1 s1 hb1 hlt1
+      · rw [if_pos c2]
+        have hc45 : c = 45 := by simpa using c2
+        have hw : (runeAt s0).2 = 1 := runeAt_ascii s0 c h.pos0 hr1.symm (by omega)
+        rw [← hst1]
+        exact signArm_ok _ _ sign_not_field.1 s1 hb1 hlt1 ⟨c, hback 1 hw, Or.inr (Or.inl hc45)⟩
       rw [if_neg c2]
       by_cases c3 : (c == 43) = true
-      · rw [if_pos c3]; exact signArm_ok _ _ sign_not_field.2 s1 hb1 hlt1
+      · rw [if_pos c3]
+        have hc43 : c = 43 := by simpa using c3
+        have hw : (runeAt s0).2 = 1 := runeAt_ascii s0 c h.pos0 hr1.symm (by omega)
+        rw [← hst1]
+        exact signArm_ok _ _ sign_not_field.2 s1 hb1 hlt1 ⟨c, hback 1 hw, Or.inl hc43⟩
       rw [if_neg c3]
       cases hst : singleTok c with
       | some t =>
         dsimp only
         refine Ok.bind (emit_ok _ s1 hb1 (singleTok_not_field c t hst)) ?_
         intro _ s2 h2
-        exact goes_inside_emit h2
+        exact ia_emit h2 hadv
       | none =>
       dsimp only
       cases htt : twoTok c with
@@ -1289,27 +1592,31 @@ theorem lexInsideAction_ok (s : St) (h : B inp d s) (hse : Entry .insideAction s
         refine Ok.bind (next_ok s1 hb1) ?_
         intro r2 s2 h2
         obtain ⟨_, hs2, hn2⟩ := h2
+        have hadv2 := pos_next_le hn2 hs2 hadv
         by_cases c4 : (r2 == some d2) = true
         · rw [if_pos c4]
           refine Ok.bind (emit_ok _ s2 hn2.toB hboth) ?_
           intro _ s3 h3
-          exact goes_inside_emit h3
+          exact ia_emit h3 hadv2
         · rw [if_neg c4]
           refine Ok.bind (backup_ok s2 hn2) ?_
           intro _ s3 h3
           refine Ok.bind (emit_ok _ s3 h3.1 htsingle) ?_
           intro _ s4 h4
-          exact goes_inside_emit h4
+          refine ia_emit h4 ?_
+          rw [h3.2, hs2]
+          show s0.start + 1 ≤ s1.pos + (runeAt s1).2 - (runeAt s1).2
+          omega
       | none =>
       dsimp only
       by_cases c5 : (c == 34) = true
-      · rw [if_pos c5]; exact goes_entry_true hb1 .quote trivial
+      · rw [if_pos c5]; exact ⟨goes_entry_true hb1 .quote hlt1, trivial⟩
       rw [if_neg c5]
       by_cases c6 : (c == 96) = true
-      · rw [if_pos c6]; exact goes_entry_true hb1 .rawQuote trivial
+      · rw [if_pos c6]; exact ⟨goes_entry_true hb1 .rawQuote hlt1, trivial⟩
       rw [if_neg c6]
       by_cases c7 : (c == 39) = true
-      · rw [if_pos c7]; exact goes_entry_true hb1 .char trivial
+      · rw [if_pos c7]; exact ⟨goes_entry_true hb1 .char hlt1, trivial⟩
       rw [if_neg c7]
       by_cases c8 : (c == 46) = true
       · rw [if_pos c8]
@@ -1319,14 +1626,22 @@ theorem lexInsideAction_ok (s : St) (h : B inp d s) (hse : Entry .insideAction s
         have hc46 : c = 46 := by simpa using c8
         have hw46 : (runeAt s0).2 = 1 := runeAt_ascii s0 c h.pos0 hr1.symm (by omega)
         have hb46 : b0 = 46 := byte_of_rune_dot b0 tl0 (by rw [hrune0, hc46])
-        refine fieldOrNumber_ok _ s1 hn1 ⟨by rw [hst1, hp1, hw46, hse0], tl0, ?_⟩
-        rw [hi1, hst1, hse0, hdrop0, hb46]
+        have hws1 : s1.width = 1 := by rw [hs1]; exact hw46
+        refine fieldOrNumber_ok _ s1 hn1 ⟨by rw [hst1, hp1, hw46, hse0], tl0, ?_⟩ ?_
+        · rw [hi1, hst1, hse0, hdrop0, hb46]
+        · rw [hws1]
+          refine ⟨c, ?_, Or.inr (Or.inr (Or.inl hc46))⟩
+          rw [runeAt_congr _ s0 (by show s1.input = s0.input; exact hi1) (by show s1.pos - 1 = s0.pos; omega)]
+          exact hr1.symm
       rw [if_neg c8]
       by_cases c9 : (decide (48 ≤ c) && decide (c ≤ 57)) = true
       · rw [if_pos c9]
         refine Ok.bind (backup_ok s1 hn1) ?_
         intro _ s3 h3
-        exact goes_entry_true h3.1 .number trivial
+        simp only [Bool.and_eq_true, decide_eq_true_eq] at c9
+        refine ⟨goes_entry_true h3.1 .number ⟨c, ?_, Or.inr (Or.inr (Or.inr c9))⟩, trivial⟩
+        rw [runeAt_congr s3 s0 (by rw [h3.2, hs1]) (by rw [h3.2, hs1]; show s0.pos + (runeAt s0).2 - (runeAt s0).2 = s0.pos; omega)]
+        exact hr1.symm
       rw [if_neg c9]
       by_cases c10 : (c == 95) = true
       · rw [if_pos c10]
@@ -1336,11 +1651,11 @@ theorem lexInsideAction_ok (s : St) (h : B inp d s) (hse : Entry .insideAction s
         split
         · refine Ok.bind (emit_ok _ s2 hb2) ?_
           intro _ s3 h3
-          exact goes_inside_emit h3
+          exact ia_emit h3 (by rw [hs2]; exact hadv)
         · have hc95 : c = 95 := by simpa using c10
           have hb0 : b0 ≠ 46 := by
             intro hb; rw [hb, rune_of_byte_dot] at hrune0; omega
-          refine goes_entry_true hb2 .identifier ⟨⟨b0, tl0, ?_, hb0⟩, Or.inl (by rw [hs2]; exact hlt1)⟩
+          refine ⟨goes_entry_true hb2 .identifier ⟨⟨b0, tl0, ?_, hb0⟩, Or.inl (by rw [hs2]; exact hlt1)⟩, trivial⟩
           rw [hs2]
           show List.drop s1.start.toNat s1.input = b0 :: tl0
           rw [hi1, hst1, hse0, hdrop0]
@@ -1356,7 +1671,7 @@ theorem lexInsideAction_ok (s : St) (h : B inp d s) (hse : Entry .insideAction s
           exact c8 this
         have hst3 : s3.start = s0.start := by rw [h3.2, hs1]
         have hi3 : s3.input = s0.input := by rw [h3.2, hs1]
-        refine goes_entry_true h3.1 .identifier ⟨⟨b0, tl0, by rw [hi3, hst3, hse0, hdrop0], hb0⟩, Or.inr ⟨c, ?_, c11⟩⟩
+        refine ⟨goes_entry_true h3.1 .identifier ⟨⟨b0, tl0, by rw [hi3, hst3, hse0, hdrop0], hb0⟩, Or.inr ⟨c, ?_, c11⟩⟩, trivial⟩
         have hra : runeAt s3 = runeAt s0 := by
           refine runeAt_congr s3 s0 (by rw [h3.2, hs1]) ?_
           rw [h3.2, hs1]
@@ -1370,7 +1685,8 @@ theorem lexInsideAction_ok (s : St) (h : B inp d s) (hse : Entry .insideAction s
         intro _ s2 h2
         refine Ok.bind (ok_modify _ s2) ?_
         intro _ s3 e3
-        exact goes_inside (by rw [e3]; exact h2.1.setParen _) (by rw [e3]; show s2.start = s2.pos; rw [h2.2.1, h2.2.2.1])
+        exact ⟨goes_inside (by rw [e3]; exact h2.1.setParen _) (by rw [e3]; show s2.start = s2.pos; rw [h2.2.1, h2.2.2.1]),
+          by rw [e3]; show s0.start + 1 ≤ s2.start; rw [h2.2.1]; exact hadv⟩
       rw [if_neg c12]
       by_cases c13 : (c == 41) = true
       · rw [if_pos c13]
@@ -1378,27 +1694,31 @@ theorem lexInsideAction_ok (s : St) (h : B inp d s) (hse : Entry .insideAction s
         intro _ s2 h2
         refine Ok.bind (ok_modify _ s2) ?_
         intro _ s3 e3
-        have hb3 : B inp d s3 := by rw [e3]; exact h2.1.setParen _
+        have hb3 : B inp d lo s3 := by rw [e3]; exact h2.1.setParen _
         have he3 : s3.start = s3.pos := by rw [e3]; show s2.start = s2.pos; rw [h2.2.1, h2.2.2.1]
         refine Ok.bind (ok_get s3) ?_
         intro g4 s4 e4
         obtain ⟨rfl, rfl⟩ := e4
         split
-        · exact errorf_goes _ s3 hb3
-        · exact goes_inside hb3 he3
+        · exact ia_err _ s3 hb3
+        · exact ⟨goes_inside hb3 he3, by rw [e3]; show s0.start + 1 ≤ s2.start; rw [h2.2.1]; exact hadv⟩
       rw [if_neg c13]
       by_cases c14 : (decide (32 ≤ c) && decide (c ≤ 126)) = true
       · rw [if_pos c14]
         refine Ok.bind (emit_ok _ s1 hb1) ?_
         intro _ s2 h2
-        exact goes_inside_emit h2
+        exact ia_emit h2 hadv
       · rw [if_neg c14]
-        exact errorf_goes _ s1 hb1
+        exact ia_err _ s1 hb1
+
+theorem lexInsideAction_ok (s : St) (h : B inp d lo s) (hse : Entry .insideAction s) :
+    Ok (lexInsideAction s) (Steps inp d .insideAction s) :=
+  (lexInsideAction_ok' s (h.relo s.start (Int.le_refl _)) hse).mono (fun _ _ h' => steps_of_inside h')
 
 
 /-! ### the state machine -/
 
-theorem step_ok (st : StateId) (s : St) (h : B inp d s) (he : Entry st s) : Ok (step st s) (Goes inp d) := by
+theorem step_ok (st : StateId) (s : St) (h : B inp d lo s) (he : Entry st s) : Ok (step st s) (Steps inp d st s) := by
   cases st with
   | text => exact lexText_ok s h
   | leftDelim => exact lexLeftDelim_ok s h he
@@ -1408,10 +1728,10 @@ theorem step_ok (st : StateId) (s : St) (h : B inp d s) (he : Entry st s) : Ok (
   | space => exact lexSpace_ok s h he
   | identifier => exact lexIdentifier_ok s h he
   | field => exact lexField_ok s h he
-  | char => exact lexChar_ok s h
-  | number => exact lexNumber_ok s h
-  | quote => exact lexQuote_ok s h
-  | rawQuote => exact lexRawQuote_ok s h
+  | char => exact lexChar_ok s h he
+  | number => exact lexNumber_ok s h he
+  | quote => exact lexQuote_ok s h he
+  | rawQuote => exact lexRawQuote_ok s h he
 
 /-- events of an outcome, oldest first -/
 def Outcome.evs : Outcome → List Event
@@ -1419,7 +1739,7 @@ def Outcome.evs : Outcome → List Event
   | .crash _ e => e
   | .outOfFuel e => e
 
-theorem runLoop_ok : ∀ (fuel : Nat) (st : StateId) (s : St), B inp d s → Entry st s →
+theorem runLoop_ok : ∀ (fuel : Nat) (st : StateId) (s : St), B inp d 0 s → Entry st s →
     (∀ m e, runLoop fuel st s ≠ .crash m e) ∧
     (∀ e ∈ (runLoop fuel st s).evs, EvOk inp.length e ∧ FieldEv e)
   | 0, st, s, h, _ => by
@@ -1440,9 +1760,48 @@ theorem runLoop_ok : ∀ (fuel : Nat) (st : StateId) (s : St), B inp d s → Ent
         intro e hev
         simp [Outcome.evs] at hev
         exact ⟨hs.1.events e hev, hs.1.fields e hev⟩
-      | some st' => exact runLoop_ok fuel st' s' hs.1 (hs.2 st' rfl)
+      | some st' => exact runLoop_ok fuel st' s' (hs.1.relo 0 hs.1.start0) (hs.2 st' rfl)
 
-theorem initial_B (dl : Delims) (hd : WfD dl) (input : Bytes) : B input dl { input := input, d := dl } :=
-  ⟨rfl, rfl, hd, Int.le_refl 0, Int.le_refl 0, by simp, by intro e he; simp at he, by intro e he; simp at he⟩
+/-! ### the state machine ends: a potential that every step lowers -/
+
+/-- hand-overs that consume nothing go down in rank: `text` > `insideAction` > `space` > the rest -/
+def rank : StateId → Nat
+  | .text => 3
+  | .insideAction => 2
+  | .space => 1
+  | _ => 0
+
+/-- four units per byte not yet emitted or ignored, plus the rank of the state -/
+def potential (st : StateId) (s : St) : Nat := 4 * (s.input.length - s.start).toNat + rank st
+
+theorem potential_step (st st' : StateId) (s s' : St) (h : B inp d lo s) (hs : Steps inp d st s (some st') s') :
+    potential st' s' < potential st s := by
+  have h1 := hs.1.low
+  have h2 := hs.1.startPos
+  have h3 := hs.1.posLen
+  have hi : s'.input = s.input := by rw [hs.1.input, h.input]
+  have h4 := h.start0
+  unfold potential
+  rw [hi, h.input]
+  cases st <;> cases st' <;> simp only [delta, rank] at h1 ⊢ <;> omega
+
+theorem runLoop_terminates : ∀ (fuel : Nat) (st : StateId) (s : St), B inp d 0 s → Entry st s → potential st s < fuel →
+    ∀ e, runLoop fuel st s ≠ .outOfFuel e
+  | 0, _, _, _, _, hp => by omega
+  | fuel + 1, st, s, h, he, hp => by
+    have hs := step_ok st s h he
+    unfold runLoop
+    cases hst : step st s with
+    | crash msg s' => rw [hst] at hs; exact hs.elim
+    | ok r s' =>
+      rw [hst] at hs
+      cases r with
+      | none => intro e hc; simp at hc
+      | some st' =>
+        have := potential_step st st' s s' h hs
+        exact runLoop_terminates fuel st' s' (hs.1.relo 0 hs.1.start0) (hs.2 st' rfl) (by omega)
+
+theorem initial_B (dl : Delims) (hd : WfD dl) (input : Bytes) : B input dl 0 { input := input, d := dl } :=
+  ⟨rfl, rfl, hd, Int.le_refl 0, Int.le_refl 0, by simp, by intro e he; simp at he, by intro e he; simp at he, Int.le_refl 0⟩
 
 end JetVerif.Lex
